@@ -1,5 +1,78 @@
-(* Proofs/RenderTotal.v -- property C01 (totality) for the rendering layer of the model.
-   (header comment with the exact statements is at the end of the file, section 12) *)
+(* Proofs/RenderTotal.v -- property C01 (totality) for the rendering layer, the DOM layer and
+   the public routes of the model: the outcome is always Ok or TooNarrow, never Panic (checked
+   subtraction / unwrap / index / debug-assert sites), never OutOfFuel (every loop's fuel is
+   sufficient).  No axioms; every main theorem is followed by Print Assumptions.
+
+   MAIN THEOREMS
+
+   (T1) c01_render_tree_total  (section 8)
+          forall d min_wrap o width tree,
+            width < usize_max -> tree_wf d min_wrap tree = true ->
+            match render_tree d min_wrap o width tree with
+            | Ok s => okish (sub_into_lines s) /\ okish (sub_into_string s)
+            | TooNarrow => True | Panic _ => False | OutOfFuel => False end.
+        okish r := r is Ok _ or TooNarrow.  For EVERY decorator (arbitrary strings, arbitrary
+        ordered-list prefix function: no monotonicity needed), every option record (wrap width 0,
+        min wrap 0, overflow on or off, ...), every width including 0, every `<ol start>`.
+        c01_render_tree_never_panics: the same as inequalities; c01_render_with_context_total:
+        through Api.render_with_context.
+   (T2) c01_to_render_tree_total (section 13): for every configuration and every document with
+        dom_ok doc = true, to_render_tree returns Ok tree with wfs tree = true (structural
+        well-formedness), never Panic.  (Dom.process is structurally recursive: no fuel.)
+   (T3) c01_routes_total / c01_routes_total_css (sections 13/14):
+          w < usize_max -> dom_ok doc = true -> est_side c doc = true ->
+          okish (lines_from_read c doc w) /\ okish (string_from_read c doc w)
+        for every config c, with the CSS front end as Section variables assumed total
+        (c01_routes_total) and instantiated with CssParse.inline_styles / doc_rules through
+        CssTotal.c17_inline_total / c17_doc_rules_total (c01_routes_total_css).
+        c01_routes_given_tree: the same for any document whose tree satisfies tree_wf.
+
+   THE SIDE CONDITIONS (all decidable), and why each is needed
+
+   width < usize_max   (usize_max = 2^64-1): `col_width + colspan` (site 30) is at most the
+        renderer's width + 1.
+   tree_wf d min_wrap tree = wf d min_wrap tree (section 4):
+     (a) no bare ITableBody / ITableRow / ITableCell node: `unreachable!` in do_render_node
+         (site 60, cex_bare_cell);
+     (b) in every table: colspan >= 1 (division by zero, site 33, cex_colspan_zero) and the
+         colspans of a row add up to at most ncols (index out of bounds, site 31,
+         cex_colspan_wide);
+     (c) the estimated minimum width of every header / blockquote / ul / ol / dd node is below
+         usize_max: with allow_width_overflow the sub-renderer is at least that wide, and a table
+         in it then overflows site 30 (cex_big_panics; only reachable with characters of
+         absurd display width, which the model does not exclude).
+        tree_wf = wfs (a, b) + smalls (c) (wf_of_wfs, section 12).
+   dom_ok doc (section 11): (1) no element has more than fan_max = 10^8 children (the colspan
+        sums of RenderTable::new / the colspan=0 fix-up stay below 2^64: a row of 1.4*10^8
+        colspan=0 cells under a row of 1.3*10^8 colspan=1000 cells would overflow usize);
+        (2) tr only in thead/tbody, td/th only in tr, thead/tbody only in table -- or anywhere
+        inside a child of table/thead/tbody/tr that the table code drops (tfoot, caption, ...).
+        html5ever builds only such DOMs; a td directly in a div reaches site 60 (cex_doc_panics).
+   est_side c doc: condition (c) computed on the tree that to_render_tree builds.
+
+   NOT NEEDED (findings of the proof): 1 <= width (render_tree is total at width 0 too; the
+   routes answer TooNarrow before); any property of the decorator; i64 bounds on `<ol start>`
+   (isat64); sub-renderers of width 0 are total (section 1: the WrappedBlock layer at width 0,
+   complementing WrapInv which needs width >= 1); the fuels `tab_loop 40`, `ws_loop`,
+   `hw_piece`, `shrink_loop` are always sufficient.
+
+   HOW the sites are excluded
+     1-8  WrappedBlock: WrapInv.Inv (width >= 1) or Invz (width 0, section 1); WI = either.
+     10,11 pop_preformat / end_strikeout: the render relation R keeps the top renderer's
+          pre_depth and filter_depth (frame property: rendering a node changes only the top of
+          the stack, Rg), apply_style/unwind and start/end_strikeout are paired (fin_T).
+     12   stack underflow: frame property.      20-24 estimates (prefixed_est).
+     30   cell_widths_T.   31,33 tree_wf (b), upd_range_some.   34, fuel: TableProof.
+     36   append_columns is only called with a non-empty column list.
+     37   sub_t: without borders no sub-renderer holds a border line; with borders the table's
+          renderer ends in a border line whenever some column has a width (TB, row_body_T).
+     40   every text line of every sub-renderer has an exact length field (cons_rline).
+     60   tree_wf (a).   32 and the usub/uadd 30 of Dom.v: section 10 (sorted positions).
+
+   STRUCTURE  0 outcome predicates; 1 WrappedBlock at width 0; 2 any width; 3 sub-renderer layer
+   (invariant sub_t, `tot`); 4 estimates; 5-6 render layer (node_t_all); 7-8 render_tree;
+   9 routes given the tree; 10 Dom table constructors; 11 process/build_element; 12 wf from
+   wfs + smalls; 13 routes from the document; 14 CSS instance, examples. *)
 From H2T Require Import Base Tagged Wrap Sub Css Dom Render Api.
 From H2T Require Import Proofs.WrapInv Proofs.RenderWidth.
 From H2T Require Proofs.TableProof.
@@ -465,3 +538,3026 @@ Proof.
   intros b1 [HI1 (c1 & c2 & c3)]. cbn [good]. rewrite <- c1, <- c3.
   destruct HI1 as ((_ & _ & Htx & _) & _). exact Htx.
 Qed.
+
+(* ================================================================== *)
+(* 2. WrappedBlock layer, any width                                     *)
+(* ================================================================== *)
+
+Definition WI (b : wblock) : Prop := Inv b \/ Invz b.
+
+Definition cons_line (l : tline) : Prop := tlen_ l = tl_width_raw l.
+
+Lemma WI_new W pad ovf : WI (wb_new W pad ovf).
+Proof.
+  destruct (N.eq_dec W 0) as [->|H].
+  - right. unfold Invz, Inv0z, wb_new. prj. split; [|split; [reflexivity|constructor]].
+    split; [reflexivity|]. split; [apply line_ok_new|]. split; [intros l []|lia].
+  - left. apply wb_new_Inv. lia.
+Qed.
+
+Lemma WI_add_text b s m t1 t2 : WI b -> okp WI (wb_add_text b s m t1 t2).
+Proof.
+  intros [H|H].
+  - eapply okp_mono; [eapply good_okp, wb_add_text_ok, H|]. intros b' [A _]. left. exact A.
+  - eapply okp_mono; [eapply good_okp, wb_add_textz_ok, H|]. intros b' [A _]. right. exact A.
+Qed.
+
+Lemma WI_into_lines b :
+  WI b -> okp (fun ls => forall l, In l ls -> cons_line l) (wb_into_lines b).
+Proof.
+  intros [H|H].
+  - eapply okp_mono; [eapply good_okp, wb_into_lines_ok, H|].
+    intros ls Hls l Hl. exact (proj1 (Hls l Hl)).
+  - eapply okp_mono; [eapply good_okp, wb_into_linesz_ok, H|].
+    intros ls Hls l Hl. exact (proj1 (Hls l Hl)).
+Qed.
+
+Lemma WI_take_frags b : WI b -> WI (fst (take_trailing_fragments b)).
+Proof.
+  intros [H|H].
+  - left. apply take_trailing_fragments_Inv, H.
+  - right. destruct H as (HI0 & Hwl & Hehw). unfold take_trailing_fragments.
+    destruct (word_is_empty (wword b)) eqn:Ewe; cbn [fst].
+    + unfold Invz. prj. split; [apply Inv0z_set_word, HI0|]. split; [|constructor].
+      rewrite Hwl. apply word_is_empty_vw, Ewe.
+    + unfold Invz. auto.
+Qed.
+
+Lemma WI_add_frag b n : WI b -> WI (wb_add_element b (Frag n)).
+Proof.
+  intros [H|H].
+  - left. apply wb_add_frag_Inv, H.
+  - right. destruct H as (HI0 & Hwl & Hehw). cbn [wb_add_element].
+    unfold Invz. prj. split; [apply Inv0z_set_word, HI0|]. split.
+    + rewrite vw_app, vw_cons, vw_nil. cbn [elem_text]. rewrite swidth_nil. lia.
+    + unfold elems_have_width in *. apply Forall_app. split; [exact Hehw|].
+      constructor; [constructor|constructor].
+Qed.
+
+(* ================================================================== *)
+(* 3. Sub-renderer layer                                                *)
+(* ================================================================== *)
+
+Definition cons_rline (r : rline) : Prop :=
+  match r with RText l => cons_line l | RLine _ _ => True end.
+Definition is_rline (r : rline) : bool :=
+  match r with RLine _ _ => true | RText _ => false end.
+
+(* the totality invariant of a sub-renderer:
+   - the cached length of every text line is exact (TaggedLine::width debug assertion, site 40),
+   - without borders there is no border line at all (so that `collapse_top` never meets one
+     without a border above it, site 37),
+   - the wrapping block satisfies the WrappedBlock invariant,
+   - the width is below usize::MAX (so that `col_width + colspan` cannot overflow, site 30). *)
+Definition sub_t (s : subr) : Prop :=
+  (forall r, In r (slines s) -> cons_rline r) /\
+  (o_borders (sopts s) = false -> forall r, In r (slines s) -> is_rline r = false) /\
+  (forall w, wrapping s = Some w -> WI w) /\
+  swidth_ s < usize_max.
+
+Definition dsame (s s' : subr) : Prop :=
+  same s s' /\ pre_depth s' = pre_depth s /\ filter_depth s' = filter_depth s.
+
+Lemma dsame_refl s : dsame s s.
+Proof. split; [apply same_refl|auto]. Qed.
+Lemma dsame_trans a b c : dsame a b -> dsame b c -> dsame a c.
+Proof.
+  intros (A1 & A2 & A3) (B1 & B2 & B3). split; [eapply same_trans; eassumption|].
+  split; congruence.
+Qed.
+
+Definition tot (f : subr -> res subr) : Prop :=
+  forall s, sub_t s -> okp (fun s' => sub_t s' /\ dsame s s') (f s).
+
+Definition lastR (s : subr) : Prop := exists b t, olast (slines s) = Some (RLine b t).
+
+Lemma olast_snoc {A} (l : list A) x : olast (l ++ [x]) = Some x.
+Proof. unfold olast. rewrite rev_app_distr. reflexivity. Qed.
+
+Lemma sub_t_ext s s' :
+  swidth_ s' = swidth_ s -> sopts s' = sopts s -> slines s' = slines s ->
+  wrapping s' = wrapping s -> sub_t s -> sub_t s'.
+Proof. unfold sub_t. intros -> -> -> ->. auto. Qed.
+
+Lemma tot_pure (g : subr -> subr) :
+  (forall s, swidth_ (g s) = swidth_ s /\ sopts (g s) = sopts s /\ slines (g s) = slines s /\
+             wrapping (g s) = wrapping s /\ pre_depth (g s) = pre_depth s /\
+             filter_depth (g s) = filter_depth s) ->
+  tot (fun s => Ok (g s)).
+Proof.
+  intros Hg s Hs. destruct (Hg s) as (a & b & c & e & f & g0). cbn [okp].
+  split; [apply (sub_t_ext s); auto|]. split; [split; auto|auto].
+Qed.
+
+Lemma tot_comp f g : tot f -> tot g -> tot (fun s => do s1 <- f s; g s1).
+Proof.
+  intros Hf Hg s Hs. eapply okp_bind; [apply Hf, Hs|].
+  intros s1 [A B]. eapply okp_mono; [apply Hg, A|].
+  intros s2 [C D]. split; [exact C|eapply dsame_trans; eassumption].
+Qed.
+
+Lemma add_line_t s l :
+  sub_t s -> cons_rline l -> (o_borders (sopts s) = false -> is_rline l = false) ->
+  sub_t (add_line s l) /\ dsame s (add_line s l) /\ wrapping (add_line s l) = wrapping s /\
+  (is_rline l = true -> lastR (add_line s l)).
+Proof.
+  intros (H1 & H2 & H3 & H4) Hc Hb.
+  assert (G : forall l' pf, cons_rline l' -> is_rline l' = is_rline l ->
+            sub_t (set_lines s (slines s ++ [l']) pf) /\
+            (is_rline l = true -> lastR (set_lines s (slines s ++ [l']) pf))).
+  { intros l' pf Hc' Hr'. split.
+    - unfold sub_t. sprj. split; [|split; [|split; assumption]].
+      + intros r Hr. apply in_app_or in Hr. destruct Hr as [Hr|[<-|[]]]; auto.
+      + intros Ho r Hr. apply in_app_or in Hr. destruct Hr as [Hr|[<-|[]]]; auto.
+        rewrite Hr'. auto.
+    - intros E. unfold lastR. sprj. rewrite olast_snoc.
+      destruct l'; [rewrite <- Hr' in E; discriminate|]. eauto. }
+  unfold add_line. destruct (pending_frags s) as [|e pf]; destruct l as [tl|b t].
+  - destruct (G (RText tl) [] Hc eq_refl) as [A B].
+    split; [exact A|]. split; [(split; [split|split]; reflexivity)|]. split; [reflexivity|exact B].
+  - destruct (G (RLine b t) [] Hc eq_refl) as [A B].
+    split; [exact A|]. split; [(split; [split|split]; reflexivity)|]. split; [reflexivity|exact B].
+  - set (tl2 := fold_left tl_push (tv tl) (fold_left tl_push (e :: pf) tl_new)).
+    destruct (G (RText tl2) []) as [A B]; [|reflexivity|].
+    { cbn [cons_rline]. unfold cons_line, tl2. rewrite !tlen_fold_push, !raw_fold_push. reflexivity. }
+    split; [exact A|]. split; [(split; [split|split]; reflexivity)|]. split; [reflexivity|exact B].
+  - destruct (G (RLine b t) (e :: pf) Hc eq_refl) as [A B].
+    split; [exact A|]. split; [(split; [split|split]; reflexivity)|]. split; [reflexivity|exact B].
+Qed.
+
+Lemma dsame_opts s s' : dsame s s' -> sopts s' = sopts s.
+Proof. intros ((_ & A) & _). exact A. Qed.
+
+Lemma extend_lines_t ls : forall s,
+  sub_t s -> (forall l, In l ls -> cons_rline l) ->
+  (o_borders (sopts s) = false -> forall l, In l ls -> is_rline l = false) ->
+  sub_t (extend_lines s ls) /\ dsame s (extend_lines s ls) /\
+  wrapping (extend_lines s ls) = wrapping s.
+Proof.
+  unfold extend_lines. induction ls as [|l ls IH]; intros s Hs Hc Hb; cbn [fold_left].
+  - split; [exact Hs|]. split; [apply dsame_refl|reflexivity].
+  - destruct (add_line_t s l Hs) as (A & B & C & _).
+    { apply Hc. left. reflexivity. }
+    { intros Ho. apply Hb; [exact Ho|left; reflexivity]. }
+    destruct (IH (add_line s l) A) as (A' & B' & C').
+    { intros l' Hl'. apply Hc. right. exact Hl'. }
+    { rewrite (dsame_opts _ _ B). intros Ho l' Hl'. apply Hb; [exact Ho|right; exact Hl']. }
+    split; [exact A'|]. split; [eapply dsame_trans; eassumption|congruence].
+Qed.
+
+Lemma flush_wrapping_none s : wrapping s = None -> flush_wrapping s = Ok s.
+Proof. intros H. unfold flush_wrapping. rewrite H. reflexivity. Qed.
+
+Lemma flush_wrapping_t s :
+  sub_t s -> okp (fun s' => sub_t s' /\ dsame s s' /\ wrapping s' = None) (flush_wrapping s).
+Proof.
+  intros Hs. unfold flush_wrapping. destruct (wrapping s) as [w|] eqn:Ew.
+  - pose proof (WI_take_frags w) as Hw1.
+    destruct (take_trailing_fragments w) as [w1 frags]. cbn [fst] in Hw1.
+    pose proof Hs as (H1 & H2 & H3 & H4).
+    eapply okp_bind; [apply WI_into_lines, Hw1, H3, Ew|].
+    intros ls Hls. cbn [okp].
+    assert (Hs0 : sub_t (set_wrapping s None)).
+    { unfold sub_t. sprj. repeat split; auto. intros ? [=]. }
+    destruct (extend_lines_t (map RText ls) _ Hs0) as (A & B & C).
+    { intros l Hl. apply in_map_iff in Hl. destruct Hl as (tl & <- & Htl). apply Hls, Htl. }
+    { intros _ l Hl. apply in_map_iff in Hl. destruct Hl as (tl & <- & _). reflexivity. }
+    sprj. split; [|split].
+    + eapply sub_t_ext; [| | | |exact A]; reflexivity.
+    + destruct B as ((B1 & B2) & B3 & B4). split; [split|]; sprj; auto.
+    + exact C.
+  - cbn [okp]. split; [exact Hs|]. split; [apply dsame_refl|exact Ew].
+Qed.
+
+Lemma flush_wrapping_tot : tot flush_wrapping.
+Proof.
+  intros s Hs. eapply okp_mono; [apply flush_wrapping_t, Hs|]. intros s' (A & B & _). auto.
+Qed.
+
+Lemma set_abe_t s b : sub_t s -> sub_t (set_abe s b).
+Proof. apply sub_t_ext; reflexivity. Qed.
+
+Lemma cons_new : cons_rline (RText tl_new).
+Proof. reflexivity. Qed.
+
+Lemma add_empty_line_t s :
+  sub_t s -> okp (fun s' => sub_t s' /\ dsame s s' /\ wrapping s' = None) (add_empty_line s).
+Proof.
+  intros Hs. unfold add_empty_line. eapply okp_bind; [apply flush_wrapping_t, Hs|].
+  intros s1 (A & B & C). cbn [okp].
+  destruct (add_line_t s1 (RText tl_new) A cons_new (fun _ => eq_refl)) as (A' & B' & C' & _).
+  split; [apply set_abe_t, A'|]. split.
+  - eapply dsame_trans; [exact B|]. eapply dsame_trans; [exact B'|].
+    split; [split|]; sprj; auto.
+  - sprj. congruence.
+Qed.
+
+Lemma start_block_t s :
+  sub_t s -> okp (fun s' => sub_t s' /\ dsame s s' /\ wrapping s' = None) (start_block s).
+Proof.
+  intros Hs. unfold start_block. eapply okp_bind; [apply flush_wrapping_t, Hs|].
+  intros s1 (A & B & C).
+  eapply okp_bind with (P := fun s2 => sub_t s2 /\ dsame s1 s2 /\ wrapping s2 = None).
+  { destruct (existsb rline_has_content (slines s1)).
+    - apply add_empty_line_t, A.
+    - cbn [okp]. split; [exact A|]. split; [apply dsame_refl|exact C]. }
+  intros s2 (A2 & B2 & C2). cbn [okp]. split; [apply set_abe_t, A2|]. split.
+  - eapply dsame_trans; [exact B|]. eapply dsame_trans; [exact B2|]. split; [split|]; sprj; auto.
+  - sprj. exact C2.
+Qed.
+
+Lemma start_block_tot : tot start_block.
+Proof.
+  intros s Hs. eapply okp_mono; [apply start_block_t, Hs|]. intros s' (A & B & _). auto.
+Qed.
+
+Lemma add_empty_line_tot : tot add_empty_line.
+Proof.
+  intros s Hs. eapply okp_mono; [apply add_empty_line_t, Hs|]. intros s' (A & B & _). auto.
+Qed.
+
+Lemma new_line_tot : tot new_line.
+Proof. exact flush_wrapping_tot. Qed.
+
+Lemma new_line_hard_tot : tot new_line_hard.
+Proof.
+  intros s Hs. unfold new_line_hard. destruct (wrapping s) as [w|].
+  - destruct ((wordlen w =? 0) && (tlen_ (wline w) =? 0)).
+    + apply add_empty_line_tot, Hs.
+    + apply flush_wrapping_tot, Hs.
+  - apply add_empty_line_tot, Hs.
+Qed.
+
+(* a border line may only be added when borders are on *)
+Lemma add_horizontal_line_t s b t :
+  sub_t s -> o_borders (sopts s) = true ->
+  okp (fun s' => sub_t s' /\ dsame s s' /\ wrapping s' = None /\ lastR s')
+      (add_horizontal_line s b t).
+Proof.
+  intros Hs Hb. unfold add_horizontal_line. eapply okp_bind; [apply flush_wrapping_t, Hs|].
+  intros s1 (A & B & C). cbn [okp].
+  destruct (add_line_t s1 (RLine b t) A I) as (A' & B' & C' & D').
+  { rewrite (dsame_opts _ _ B), Hb. discriminate. }
+  split; [exact A'|]. split; [eapply dsame_trans; eassumption|].
+  split; [congruence|apply D'; reflexivity].
+Qed.
+
+Lemma add_horizontal_border_width_t s w :
+  sub_t s -> o_borders (sopts s) = true ->
+  okp (fun s' => sub_t s' /\ dsame s s' /\ wrapping s' = None /\ lastR s')
+      (add_horizontal_border_width s w).
+Proof.
+  intros Hs Hb. unfold add_horizontal_border_width.
+  eapply okp_bind; [apply flush_wrapping_t, Hs|].
+  intros s1 (A & B & C). cbn [okp].
+  destruct (add_line_t s1 (RLine (border_new w) (ann_stack s1)) A I) as (A' & B' & C' & D').
+  { rewrite (dsame_opts _ _ B), Hb. discriminate. }
+  split; [exact A'|]. split; [eapply dsame_trans; eassumption|].
+  split; [congruence|apply D'; reflexivity].
+Qed.
+
+(* ---- inline text ---- *)
+Lemma get_wrapping_t s : sub_t s -> WI (get_wrapping s).
+Proof.
+  intros (_ & _ & H3 & _). unfold get_wrapping. destruct (wrapping s) as [w|] eqn:Ew.
+  - apply H3. reflexivity.
+  - apply WI_new.
+Qed.
+
+Lemma set_wrapping_t s w : sub_t s -> WI w -> sub_t (set_wrapping s (Some w)).
+Proof.
+  intros (H1 & H2 & H3 & H4) Hw. unfold sub_t. sprj. repeat split; auto.
+  intros w' [= <-]. exact Hw.
+Qed.
+
+Lemma add_inline_text_tot d t : tot (fun s => add_inline_text d s t).
+Proof.
+  intros s Hs. unfold add_inline_text.
+  destruct (negb (preserve_ws (ws_mode s)) && at_block_end s && all_ws t).
+  { cbn [okp]. split; [exact Hs|apply dsame_refl]. }
+  eapply okp_bind with (P := fun s1 => sub_t s1 /\ dsame s s1).
+  { destruct (at_block_end s).
+    - apply start_block_tot, Hs.
+    - cbn [okp]. split; [exact Hs|apply dsame_refl]. }
+  intros s1 [A B].
+  eapply okp_bind; [apply WI_add_text, get_wrapping_t, A|].
+  intros w1 Hw1. cbn [okp]. split; [apply set_wrapping_t; assumption|].
+  eapply dsame_trans; [exact B|]. split; [split|]; sprj; auto.
+Qed.
+
+Lemma push_ann_tot a : tot (fun s => Ok (push_ann s a)).
+Proof. apply tot_pure. intros s. unfold push_ann. sprj. repeat split. Qed.
+Lemma pop_ann_tot : tot (fun s => Ok (pop_ann s)).
+Proof. apply tot_pure. intros s. unfold pop_ann. sprj. repeat split. Qed.
+
+Lemma start_deco_tot d p : tot (fun s => start_deco d s p).
+Proof.
+  unfold start_deco.
+  exact (tot_comp _ _ (push_ann_tot (snd p)) (add_inline_text_tot d (fst p))).
+Qed.
+Lemma end_deco_tot d e : tot (fun s => end_deco d s e).
+Proof. unfold end_deco. exact (tot_comp _ _ (add_inline_text_tot d e) pop_ann_tot). Qed.
+
+Lemma sub_start_link_tot d href : tot (fun s => sub_start_link d s href).
+Proof. apply start_deco_tot. Qed.
+Lemma sub_end_link_tot d : tot (sub_end_link d).
+Proof. apply (end_deco_tot d). Qed.
+Lemma start_emphasis_tot d : tot (start_emphasis d).
+Proof. apply (start_deco_tot d). Qed.
+Lemma end_emphasis_tot d : tot (end_emphasis d).
+Proof. apply (end_deco_tot d). Qed.
+Lemma start_strong_tot d : tot (start_strong d).
+Proof. apply (start_deco_tot d). Qed.
+Lemma end_strong_tot d : tot (end_strong d).
+Proof. apply (end_deco_tot d). Qed.
+Lemma start_code_tot d : tot (start_code d).
+Proof. apply (start_deco_tot d). Qed.
+Lemma end_code_tot d : tot (end_code d).
+Proof. apply (end_deco_tot d). Qed.
+Lemma start_superscript_tot d : tot (start_superscript d).
+Proof. apply (start_deco_tot d). Qed.
+Lemma end_superscript_tot d : tot (end_superscript d).
+Proof. apply (end_deco_tot d). Qed.
+
+Lemma add_image_tot d src title : tot (fun s => add_image d s src title).
+Proof.
+  unfold add_image.
+  exact (tot_comp _ _ (tot_comp _ _ (push_ann_tot _) (add_inline_text_tot d _)) pop_ann_tot).
+Qed.
+
+Lemma record_frag_start_tot name : tot (fun s => Ok (record_frag_start s name)).
+Proof.
+  intros s Hs. cbn [okp]. unfold record_frag_start. split; [|split; [split|]; sprj; auto].
+  apply set_wrapping_t; [exact Hs|]. apply WI_add_frag, get_wrapping_t, Hs.
+Qed.
+
+Lemma end_block_tot : tot (fun s => Ok (end_block s)).
+Proof. apply tot_pure. intros s. unfold end_block. sprj. repeat split. Qed.
+
+(* strikeout: the filter depth goes up by one (when the option is on) and down again *)
+Definition strike_inc (s : subr) : nat :=
+  if o_strike (sopts s) then S (filter_depth s) else filter_depth s.
+
+Lemma start_strikeout_t d s :
+  sub_t s ->
+  okp (fun s' => sub_t s' /\ same s s' /\ pre_depth s' = pre_depth s /\
+                 filter_depth s' = strike_inc s) (start_strikeout d s).
+Proof.
+  intros Hs. unfold start_strikeout. eapply okp_bind; [apply (start_deco_tot d), Hs|].
+  intros s1 (A & (B1 & B2) & B3 & B4). cbn [okp]. unfold strike_inc.
+  rewrite <- B2. destruct (o_strike (sopts s1)) eqn:Eo.
+  - split; [eapply sub_t_ext; [| | | |exact A]; reflexivity|].
+    split; [split; sprj; congruence|]. sprj. split; congruence.
+  - split; [exact A|]. split; [split; congruence|]. split; congruence.
+Qed.
+
+Lemma end_strikeout_t d s s0 :
+  sub_t s -> sopts s = sopts s0 -> filter_depth s = strike_inc s0 ->
+  okp (fun s' => sub_t s' /\ same s s' /\ pre_depth s' = pre_depth s /\
+                 filter_depth s' = filter_depth s0) (end_strikeout d s).
+Proof.
+  intros Hs Eo Ef. unfold end_strikeout. unfold strike_inc in Ef. rewrite Eo.
+  destruct (o_strike (sopts s0)) eqn:Es.
+  - rewrite Ef. cbn [bind].
+    assert (A : sub_t (set_filter s (filter_depth s0))) by (eapply sub_t_ext; [| | | |exact Hs]; reflexivity).
+    eapply okp_mono; [apply (end_deco_tot d), A|].
+    intros s' (A' & (B1 & B2) & B3 & B4). sprj. split; [exact A'|]. split; [split; assumption|].
+    split; assumption.
+  - cbn [bind]. eapply okp_mono; [apply (end_deco_tot d), Hs|].
+    intros s' (A' & (B1 & B2) & B3 & B4). split; [exact A'|]. split; [split; assumption|].
+    split; congruence.
+Qed.
+
+Lemma push_ws_mode_tot m : tot (fun s => Ok (push_ws_mode s m)).
+Proof. apply tot_pure. intros s. unfold push_ws_mode. sprj. repeat split. Qed.
+Lemma pop_ws_mode_tot : tot (fun s => Ok (pop_ws_mode s)).
+Proof. apply tot_pure. intros s. unfold pop_ws_mode. sprj. repeat split. Qed.
+Lemma push_colour_tot d r g b : tot (fun s => Ok (push_colour d s r g b)).
+Proof.
+  apply tot_pure. intros s. unfold push_colour, push_ann. destruct (d_colours d); sprj; repeat split.
+Qed.
+Lemma push_bgcolour_tot d r g b : tot (fun s => Ok (push_bgcolour d s r g b)).
+Proof.
+  apply tot_pure. intros s. unfold push_bgcolour, push_ann. destruct (d_colours d); sprj; repeat split.
+Qed.
+Lemma pop_colour_tot d : tot (fun s => Ok (pop_colour d s)).
+Proof.
+  apply tot_pure. intros s. unfold pop_colour, pop_ann. destruct (d_colours d); sprj; repeat split.
+Qed.
+
+Lemma new_sub_renderer_t s w :
+  w < usize_max ->
+  sub_t (new_sub_renderer s w) /\ sopts (new_sub_renderer s w) = sopts s /\
+  swidth_ (new_sub_renderer s w) = w.
+Proof.
+  intros Hw. unfold new_sub_renderer, sub_new. sprj. split; [|auto].
+  unfold sub_t. sprj. split; [intros r []|]. split; [intros _ r []|]. split; [intros ? [=]|exact Hw].
+Qed.
+
+(* ---- prefixes ---- *)
+Lemma sub_into_lines_t s :
+  sub_t s ->
+  okp (fun ls => (forall r, In r ls -> cons_rline r) /\
+                 (o_borders (sopts s) = false -> forall r, In r ls -> is_rline r = false))
+      (sub_into_lines s).
+Proof.
+  intros Hs. unfold sub_into_lines. eapply okp_bind; [apply flush_wrapping_t, Hs|].
+  intros s1 ((A1 & A2 & _) & B & _). cbn [okp]. rewrite <- (dsame_opts _ _ B). auto.
+Qed.
+
+Lemma cons_insert_front l s t : cons_line l -> cons_line (tl_insert_front l s t).
+Proof.
+  unfold cons_line. intros H. rewrite raw_insert_front.
+  unfold tl_insert_front. destruct (tv l) as [|[s1 t1|n] v']; [| destruct (tag_eqb t1 t)|];
+    cbn [tlen_]; lia.
+Qed.
+
+Lemma attach_prefix_t t p l :
+  cons_rline l -> cons_rline (attach_prefix t p l) /\ is_rline (attach_prefix t p l) = false.
+Proof.
+  intros H. destruct l as [tl|b bt]; cbn [attach_prefix].
+  - destruct p as [|c p]; cbn [cons_rline is_rline]; [auto|].
+    split; [apply cons_insert_front, H|reflexivity].
+  - cbn [cons_rline is_rline]. split; [|reflexivity].
+    unfold cons_line. rewrite !tlen_push, !raw_push. reflexivity.
+Qed.
+
+Lemma attach_prefixes_t t first rest ls :
+  (forall r, In r ls -> cons_rline r) ->
+  forall r, In r (attach_prefixes t first rest ls) -> cons_rline r /\ is_rline r = false.
+Proof.
+  intros Hls r Hin. destruct ls as [|l ls]; [destruct Hin|].
+  cbn [attach_prefixes] in Hin. destruct Hin as [<-|Hin].
+  - apply attach_prefix_t, Hls. left. reflexivity.
+  - apply in_map_iff in Hin. destruct Hin as (l' & <- & Hl').
+    apply attach_prefix_t, Hls. right. exact Hl'.
+Qed.
+
+Lemma append_subrender_tot other first rest :
+  sub_t other -> tot (fun s => append_subrender s other first rest).
+Proof.
+  intros Ho s Hs. unfold append_subrender.
+  eapply okp_bind; [apply flush_wrapping_t, Hs|]. intros s1 (A & B & C).
+  eapply okp_bind; [apply sub_into_lines_t, Ho|]. intros ols [D _]. cbn [okp].
+  destruct (extend_lines_t (attach_prefixes (ann_stack s1) first rest ols) s1 A) as (E & F & _).
+  - intros l Hl. eapply attach_prefixes_t; eassumption.
+  - intros _ l Hl. eapply attach_prefixes_t; eassumption.
+  - split; [exact E|eapply dsame_trans; eassumption].
+Qed.
+
+(* ---- append_columns_with_borders ---- *)
+Lemma pad_cell_lines_t width t : forall ls,
+  (forall r, In r ls -> cons_rline r) ->
+  okp (fun pls => map is_rline pls = map is_rline ls) (pad_cell_lines width t ls).
+Proof.
+  induction ls as [|[tl|b bt] ls IH]; intros H; cbn [pad_cell_lines].
+  - reflexivity.
+  - destruct (tl_pad_to_spec tl width t (H (RText tl) (or_introl eq_refl))) as (l' & E & _).
+    rewrite E. cbn [bind]. eapply okp_bind; [apply IH; intros r Hr; apply H; right; exact Hr|].
+    intros r Hr. cbn [okp map is_rline]. congruence.
+  - eapply okp_bind; [apply IH; intros r Hr; apply H; right; exact Hr|].
+    intros r Hr. cbn [okp map is_rline]. congruence.
+Qed.
+
+Lemma map_is_rline_false ls pls :
+  map is_rline pls = map is_rline ls ->
+  (forall r, In r ls -> is_rline r = false) -> forall r, In r pls -> is_rline r = false.
+Proof.
+  revert ls. induction pls as [|p pls IH]; intros [|l ls] E H r Hr; try discriminate; [destruct Hr|].
+  cbn [map] in E. injection E as E1 E2. destruct Hr as [<-|Hr].
+  - rewrite E1. apply H. left. reflexivity.
+  - eapply IH; [exact E2| |exact Hr]. intros r' Hr'. apply H. right. exact Hr'.
+Qed.
+
+Lemma col_line_sets_t t bd : forall cols,
+  Forall (fun c => sub_t c /\ o_borders (sopts c) = bd) cols ->
+  okp (fun sets => length sets = length cols /\
+                   (bd = false -> forall p, In p sets -> forall r, In r (snd p) -> is_rline r = false))
+      (col_line_sets t cols).
+Proof.
+  induction cols as [|c cols IH]; intros H; cbn [col_line_sets].
+  - cbn [okp]. split; [reflexivity|]. intros _ p [].
+  - inversion H as [|? ? [Hc Hb] Hcols]; subst.
+    eapply okp_bind; [apply sub_into_lines_t, Hc|]. intros ls [L1 L2].
+    eapply okp_bind; [apply pad_cell_lines_t, L1|]. intros pls Hpls.
+    eapply okp_bind; [apply IH, Hcols|]. intros r [R1 R2]. cbn [okp length]. split; [congruence|].
+    intros Hbd p [<-|Hp] r0 Hr0.
+    + cbn [snd] in Hr0. eapply map_is_rline_false; [exact Hpls| |exact Hr0].
+      apply L2. exact Hbd.
+    + eapply R2; eassumption.
+Qed.
+
+Lemma collapse_top_t : forall sets prev pos,
+  (prev = None -> forall p, In p sets -> forall r, In r (snd p) -> is_rline r = false) ->
+  exists pv sets', collapse_top sets prev pos = Ok (pv, sets').
+Proof.
+  induction sets as [|[w sub] sets IH]; intros prev pos H; cbn [collapse_top].
+  - eauto.
+  - assert (Hrest : forall prev' pos',
+              (prev' = None -> prev = None) ->
+              exists pv sets', collapse_top sets prev' pos' = Ok (pv, sets')).
+    { intros prev' pos' Hp. apply IH. intros E p Hp' r Hr.
+      apply (H (Hp E) p (or_intror Hp') r Hr). }
+    destruct sub as [|[tl|line lt] sub'].
+    + destruct (Hrest prev (pos + w + 1)) as (pv & sets' & E); [auto|]. rewrite E. cbn [bind]. eauto.
+    + destruct (Hrest prev (pos + w + 1)) as (pv & sets' & E); [auto|]. rewrite E. cbn [bind]. eauto.
+    + destruct prev as [pb|].
+      * destruct (Hrest (Some (merge_from_below pb line pos)) (pos + w + 1)) as (pv & sets' & E);
+          [discriminate|]. rewrite E. cbn [bind]. eauto.
+      * exfalso. specialize (H eq_refl (w, RLine line lt :: sub') (or_introl eq_refl)
+                               (RLine line lt) (or_introl eq_refl)). discriminate.
+Qed.
+
+Lemma cons_push l e : cons_line l -> cons_line (tl_push l e).
+Proof. unfold cons_line. intros H. rewrite tlen_push, raw_push. lia. Qed.
+Lemma cons_push_char l c t : cons_line l -> cons_line (tl_push_char l c t).
+Proof. unfold cons_line. intros H. rewrite tlen_push_char, raw_push_char. lia. Qed.
+Lemma cons_push_str l s t : cons_line l -> cons_line (tl_push_str l s t).
+Proof. unfold cons_line. intros H. rewrite tlen_push_str, raw_push_str. lia. Qed.
+Lemma cons_consume l o : cons_line l -> cons_line (tl_consume l o).
+Proof.
+  unfold cons_line, tl_consume. intros H. rewrite tlen_fold_push, raw_fold_push. lia.
+Qed.
+
+Lemma row_line_cons t draw i : forall sets pads acc,
+  cons_line acc -> cons_line (row_line t draw i sets pads acc).
+Proof.
+  induction sets as [|[w ls] sets IH]; intros pads acc H; cbn [row_line]; [exact H|].
+  apply IH.
+  assert (H1 : cons_line
+            match nth_opt ls i with
+            | Some (RText tl) => tl_consume acc tl
+            | Some (RLine b _) => tl_push acc (Str (border_string b) t)
+            | None => tl_push acc (Str match match pads with p :: _ => p | [] => None end with
+                                       | Some p => p
+                                       | None => spacesl L_pad w
+                                       end t)
+            end).
+  { destruct (nth_opt ls i) as [[tl|b bt]|]; [apply cons_consume|apply cons_push|apply cons_push]; exact H. }
+  destruct sets; [exact H1|apply cons_push_char, H1].
+Qed.
+
+Lemma row_lines_t t draw sets pads : forall n i s,
+  sub_t s ->
+  sub_t (row_lines t draw n i sets pads s) /\ dsame s (row_lines t draw n i sets pads s) /\
+  wrapping (row_lines t draw n i sets pads s) = wrapping s.
+Proof.
+  induction n as [|n IH]; intros i s Hs; cbn [row_lines].
+  - split; [exact Hs|]. split; [apply dsame_refl|reflexivity].
+  - destruct (add_line_t s (RText (row_line t draw i sets pads tl_new)) Hs) as (A & B & C & _).
+    { cbn [cons_rline]. apply row_line_cons. reflexivity. }
+    { reflexivity. }
+    destruct (IH (S i) _ A) as (A' & B' & C').
+    split; [exact A'|]. split; [eapply dsame_trans; eassumption|congruence].
+Qed.
+
+Lemma columns_tail_t s (prev3 : option (list seg)) (next3 : list seg)
+      (sets4 : list (N * list rline)) (pads : list (option text)) (t : tag) :
+  sub_t s ->
+  let lines1 := match olast (slines s), prev3 with
+                | Some (RLine _ pt), Some pb => replace_last (slines s) (RLine pb pt)
+                | _, _ => slines s
+                end in
+  let s2 := set_lines s lines1 (pending_frags s) in
+  let cell_height := fold_left Nat.max (map (fun p => length (snd p)) sets4) O in
+  let draw := o_borders (sopts s2) in
+  let s3 := row_lines t draw cell_height O sets4 pads s2 in
+  let s' := if draw then add_line s3 (RLine next3 t) else s3 in
+  sub_t s' /\ dsame s s' /\ wrapping s' = wrapping s /\ (o_borders (sopts s) = true -> lastR s').
+Proof.
+  intros Hs. cbv zeta. pose proof Hs as (H1 & H2 & H3 & H4).
+  set (lines1 := match olast (slines s), prev3 with
+                 | Some (RLine _ pt), Some pb => replace_last (slines s) (RLine pb pt)
+                 | _, _ => slines s
+                 end).
+  assert (Hs2 : sub_t (set_lines s lines1 (pending_frags s))).
+  { unfold sub_t. sprj. split; [|split; [|split; assumption]].
+    - intros r Hr. unfold lines1 in Hr.
+      destruct (olast (slines s)) as [[l|b pt]|]; auto. destruct prev3 as [pb|]; auto.
+      apply in_replace_last in Hr. destruct Hr as [Hr| ->]; [auto|exact I].
+    - intros Ho r Hr. unfold lines1 in Hr.
+      destruct (olast (slines s)) as [[l|b pt]|] eqn:El; auto. destruct prev3 as [pb|]; auto.
+      apply in_replace_last in Hr. destruct Hr as [Hr| ->]; [auto|].
+      apply olast_In in El. specialize (H2 Ho _ El). discriminate. }
+  set (s2 := set_lines s lines1 (pending_frags s)) in *.
+  assert (D2 : dsame s s2 /\ wrapping s2 = wrapping s).
+  { split; [split; [split|split]|]; reflexivity. }
+  destruct D2 as [D2 W2].
+  destruct (row_lines_t t (o_borders (sopts s2))
+              sets4 pads (fold_left Nat.max (map (fun p => length (snd p)) sets4) O) O s2 Hs2)
+    as (A3 & D3 & W3).
+  set (s3 := row_lines t (o_borders (sopts s2)) (fold_left Nat.max (map (fun p => length (snd p)) sets4) O)
+                       O sets4 pads s2) in *.
+  change (sopts s2) with (sopts s).
+  destruct (o_borders (sopts s)) eqn:Eb.
+  - destruct (add_line_t s3 (RLine next3 t) A3 I) as (A4 & D4 & W4 & L4).
+    { rewrite (dsame_opts _ _ D3). change (sopts s2) with (sopts s). rewrite Eb. discriminate. }
+    split; [exact A4|]. split; [eapply dsame_trans; [exact D2|]; eapply dsame_trans; eassumption|].
+    split; [congruence|]. intros _. apply L4. reflexivity.
+  - split; [exact A3|]. split; [exact (dsame_trans _ _ _ D2 D3)|]. split; [congruence|intros [=]].
+Qed.
+
+Lemma append_columns_t s cols collapse :
+  sub_t s -> wrapping s = None -> cols <> [] ->
+  Forall (fun c => sub_t c /\ o_borders (sopts c) = o_borders (sopts s)) cols ->
+  (o_borders (sopts s) = true -> lastR s) ->
+  okp (fun s' => sub_t s' /\ dsame s s' /\ wrapping s' = None /\
+                 (o_borders (sopts s) = true -> lastR s'))
+      (append_columns_with_borders s cols collapse).
+Proof.
+  intros Hs Hw Hne Hcols Hlast. unfold append_columns_with_borders.
+  rewrite (flush_wrapping_none s Hw). cbn [bind].
+  eapply okp_bind; [apply (col_line_sets_t (ann_stack s) (o_borders (sopts s))), Hcols|].
+  intros sets [Hlen Hnr]. cbv zeta.
+  destruct sets as [|p0 sets0] eqn:Esets.
+  { destruct cols; [congruence|discriminate]. }
+  rewrite <- Esets in *. replace (match sets with [] => Panic 36 | _ :: _ => Ok tt end) with (@Ok unit tt)
+    by (rewrite Esets; reflexivity).
+  cbn [bind].
+  set (tw := sumN (map fst sets) + (N.of_nat (length sets) - 1)).
+  assert (Hfin : forall prev3 next3 sets4 pads,
+            okp (fun s' => sub_t s' /\ dsame s s' /\ wrapping s' = None /\
+                           (o_borders (sopts s) = true -> lastR s'))
+                (Ok (let lines1 := match olast (slines s), prev3 with
+                                   | Some (RLine _ pt), Some pb => replace_last (slines s) (RLine pb pt)
+                                   | _, _ => slines s
+                                   end in
+                     let s2 := set_lines s lines1 (pending_frags s) in
+                     let cell_height := fold_left Nat.max (map (fun p => length (snd p)) sets4) O in
+                     let draw := o_borders (sopts s2) in
+                     let s3 := row_lines (ann_stack s) draw cell_height O sets4 pads s2 in
+                     if draw then add_line s3 (RLine next3 (ann_stack s)) else s3))).
+  { intros prev3 next3 sets4 pads. cbn [okp].
+    destruct (columns_tail_t s prev3 next3 sets4 pads (ann_stack s) Hs) as (A & B & C & D).
+    cbv zeta in A, B, C, D. cbv zeta. split; [exact A|]. split; [exact B|]. split; [congruence|exact D]. }
+  destruct (olast (slines s)) as [[l|pb pt]|] eqn:El.
+  - (* last line is a text line: borders must be off *)
+    assert (Hoff : o_borders (sopts s) = false).
+    { destruct (o_borders (sopts s)); [|reflexivity].
+      destruct (Hlast eq_refl) as (b & t & E). congruence. }
+    destruct collapse.
+    + destruct (collapse_top_t sets None 0) as (pv & sets' & E).
+      { intros _. apply Hnr, Hoff. }
+      rewrite E. cbn [bind].
+      destruct (collapse_bottom sets' (border_new tw) 0) as [[n' s'] p'].
+      cbn [bind]. apply Hfin; exact None.
+    + cbn [bind]. apply Hfin; exact None.
+  - destruct (join_cols (map fst sets) pb (border_new tw) 0) as [p n].
+    destruct collapse.
+    + destruct (collapse_top_t sets (Some p) 0) as (pv & sets' & E); [discriminate|].
+      rewrite E. cbn [bind].
+      destruct (collapse_bottom sets' n 0) as [[n' s'] p'].
+      cbn [bind]. apply (Hfin pv).
+    + cbn [bind]. apply (Hfin (Some p)).
+  - assert (Hoff : o_borders (sopts s) = false).
+    { destruct (o_borders (sopts s)); [|reflexivity].
+      destruct (Hlast eq_refl) as (b & t & E). congruence. }
+    destruct collapse.
+    + destruct (collapse_top_t sets None 0) as (pv & sets' & E).
+      { intros _. apply Hnr, Hoff. }
+      rewrite E. cbn [bind].
+      destruct (collapse_bottom sets' (border_new tw) 0) as [[n' s'] p'].
+      cbn [bind]. apply Hfin; exact None.
+    + cbn [bind]. apply Hfin; exact None.
+Qed.
+
+
+(* ---- append_vert_row ---- *)
+Lemma vert_cols_t : forall cols s first,
+  sub_t s -> Forall sub_t cols -> okp (fun s' => sub_t s' /\ dsame s s') (vert_cols s cols first).
+Proof.
+  induction cols as [|c cols IH]; intros s first Hs Hc; cbn [vert_cols].
+  - cbn [okp]. split; [exact Hs|apply dsame_refl].
+  - inversion Hc as [|? ? Hc1 Hc2]; subst.
+    eapply okp_bind with (P := fun s1 => sub_t s1 /\ dsame s s1).
+    { destruct (negb first && o_borders (sopts s)) eqn:E.
+      - apply andb_true_iff in E. destruct E as [_ E].
+        eapply okp_mono; [apply add_horizontal_line_t; assumption|]. intros s' (A & B & _). auto.
+      - cbn [okp]. split; [exact Hs|apply dsame_refl]. }
+    intros s1 [A B]. eapply okp_bind; [apply (append_subrender_tot c [] [] Hc1), A|].
+    intros s2 [A2 B2]. eapply okp_mono; [apply IH; assumption|].
+    intros s3 [A3 B3]. split; [exact A3|].
+    eapply dsame_trans; [exact B|]. eapply dsame_trans; eassumption.
+Qed.
+
+Lemma append_vert_row_tot cols : Forall sub_t cols -> tot (fun s => append_vert_row s cols).
+Proof.
+  intros Hc s Hs. unfold append_vert_row.
+  eapply okp_bind; [apply flush_wrapping_tot, Hs|]. intros s1 [A B].
+  eapply okp_bind; [apply vert_cols_t; assumption|]. intros s2 [A2 B2].
+  destruct (o_borders (sopts s2)) eqn:E.
+  - unfold add_horizontal_border.
+    eapply okp_mono; [apply add_horizontal_border_width_t; assumption|].
+    intros s3 (A3 & B3 & _). split; [exact A3|].
+    eapply dsame_trans; [exact B|]. eapply dsame_trans; eassumption.
+  - cbn [okp]. split; [exact A2|eapply dsame_trans; eassumption].
+Qed.
+
+(* ---- footnotes ---- *)
+Lemma fl_chars_t t : forall cs s buf wl pos,
+  sub_t s -> cons_line wl ->
+  let r := fl_chars s t cs buf wl pos in
+  sub_t (fst (fst (fst r))) /\ cons_line (snd (fst r)) /\ dsame s (fst (fst (fst r))) /\
+  wrapping (fst (fst (fst r))) = wrapping s.
+Proof.
+  induction cs as [|c cs IH]; intros s buf wl pos Hs Hwl; cbn [fl_chars].
+  - cbn [fst snd]. split; [exact Hs|]. split; [exact Hwl|]. split; [apply dsame_refl|reflexivity].
+  - destruct (swidth_ s <? pos + cw0 c).
+    + set (wl1 := match buf with [] => wl | _ => tl_push_str wl buf t end).
+      assert (Hwl1 : cons_line wl1).
+      { unfold wl1. destruct buf; [exact Hwl|apply cons_push_str, Hwl]. }
+      destruct (add_line_t s (RText wl1) Hs Hwl1 (fun _ => eq_refl)) as (A & B & C & _).
+      destruct (IH (add_line s (RText wl1)) [c] tl_new (0 + cw0 c) A eq_refl) as (A' & B' & C' & D').
+      cbv zeta in *. split; [exact A'|]. split; [exact B'|].
+      split; [eapply dsame_trans; eassumption|congruence].
+    + apply IH; assumption.
+Qed.
+
+Lemma fl_strings_t : forall strs s wl pos,
+  sub_t s -> cons_line wl ->
+  let r := fl_strings s strs wl pos in
+  sub_t (fst r) /\ cons_line (snd r) /\ dsame s (fst r) /\ wrapping (fst r) = wrapping s.
+Proof.
+  induction strs as [|[str tg] strs IH]; intros s wl pos Hs Hwl; cbn [fl_strings].
+  - cbn [fst snd]. split; [exact Hs|]. split; [exact Hwl|]. split; [apply dsame_refl|reflexivity].
+  - destruct (o_wrap_links (sopts s) && (swidth_ s <? pos + swidth (nl_to_space str))).
+    + pose proof (fl_chars_t [ADefault] (nl_to_space str) s [] wl pos Hs Hwl) as H.
+      destruct (fl_chars s [ADefault] (nl_to_space str) [] wl pos) as [[[s1 buf] wl1] pos1].
+      cbv zeta in H. cbn [fst snd] in H. destruct H as (A & B & C & D).
+      destruct (IH s1 (tl_push_str wl1 buf [ADefault]) pos1 A (cons_push_str _ _ _ B))
+        as (A' & B' & C' & D').
+      cbv zeta in *. split; [exact A'|]. split; [exact B'|].
+      split; [eapply dsame_trans; eassumption|congruence].
+    + apply IH; [exact Hs|apply cons_push_str, Hwl].
+Qed.
+
+Lemma fmt_links_t : forall links s,
+  sub_t s -> sub_t (fmt_links s links) /\ dsame s (fmt_links s links) /\
+             wrapping (fmt_links s links) = wrapping s.
+Proof.
+  induction links as [|l links IH]; intros s Hs; cbn [fmt_links].
+  - split; [exact Hs|]. split; [apply dsame_refl|reflexivity].
+  - pose proof (fl_strings_t (tl_tagged_strings l) s tl_new 0 Hs eq_refl) as H.
+    destruct (fl_strings s (tl_tagged_strings l) tl_new 0) as [s1 wl].
+    cbv zeta in H. cbn [fst snd] in H. destruct H as (A & B & C & D).
+    destruct (add_line_t s1 (RText wl) A B (fun _ => eq_refl)) as (A2 & B2 & C2 & _).
+    destruct (IH _ A2) as (A3 & B3 & C3).
+    split; [exact A3|]. split; [|congruence].
+    eapply dsame_trans; [exact C|]. eapply dsame_trans; eassumption.
+Qed.
+
+(* ================================================================== *)
+(* 4. Size estimates are total on well-formed trees                     *)
+(* ================================================================== *)
+
+(* r is Ok a with P a (no failure of any kind) *)
+Definition sure {A} (P : A -> Prop) (r : res A) : Prop :=
+  match r with Ok a => P a | _ => False end.
+
+Lemma sure_bind {A B} (P : A -> Prop) (Q : B -> Prop) (r : res A) (f : A -> res B) :
+  sure P r -> (forall a, P a -> sure Q (f a)) -> sure Q (bind r f).
+Proof. destruct r; cbn; auto; contradiction. Qed.
+
+Lemma sure_mono {A} (P Q : A -> Prop) (r : res A) :
+  sure P r -> (forall a, P a -> Q a) -> sure Q r.
+Proof. destruct r; cbn; auto. Qed.
+
+Lemma sure_ex {A} (P : A -> Prop) (r : res A) : sure P r -> exists a, r = Ok a /\ P a.
+Proof. destruct r; cbn; intros H; try contradiction. eauto. Qed.
+
+Lemma sure_fold {A B} (J : A -> Prop) (f : B -> A -> res A) (l : list B) :
+  (forall b, In b l -> forall a, J a -> sure J (f b a)) ->
+  forall a, J a -> sure J (fold_left (fun acc b => do s <- acc; f b s) l (Ok a)).
+Proof.
+  induction l as [|b l IH]; intros Hstep a Ha; cbn [fold_left].
+  - exact Ha.
+  - cbn [bind]. pose proof (Hstep b (or_introl eq_refl) a Ha) as Hb.
+    destruct (f b a) as [a1| | |]; cbn [sure] in Hb; try contradiction.
+    apply IH; [|exact Hb]. intros b' Hb'. apply Hstep. right. exact Hb'.
+Qed.
+
+Lemma upd_range_some {A} (f : A -> A) : forall (l : list A) from len,
+  (from + len <= length l)%nat ->
+  exists r, upd_range l from len f = Some r /\ length r = length l.
+Proof.
+  induction l as [|x l IH]; intros from len H.
+  - destruct len as [|len]; [cbn; eauto|]. cbn [length] in H. lia.
+  - destruct len as [|len]; [cbn; eauto|]. destruct from as [|from]; cbn [upd_range].
+    + destruct (IH O len) as (r & E & L); [cbn [length] in H; lia|].
+      rewrite E. eexists. split; [reflexivity|]. cbn [length]. congruence.
+    + destruct (IH from (S len)) as (r & E & L); [cbn [length] in H; lia|].
+      rewrite E. eexists. split; [reflexivity|]. cbn [length]. congruence.
+Qed.
+
+Definition row_span (cells : list rcell) : N := sumN (map cell_colspan cells).
+
+(* a fold over the cells of a row that advances a column counter by the colspans and
+   rewrites a list of ncols column records in place *)
+Lemma cells_fold_sure {E} (nc : N) (F : rcell -> list E * N -> res (list E * N)) :
+  forall cells sz colno,
+  (forall c, In c cells -> forall sz colno,
+     length sz = N.to_nat nc -> colno + cell_colspan c <= nc ->
+     sure (fun r => length (fst r) = N.to_nat nc /\ snd r = colno + cell_colspan c)
+          (F c (sz, colno))) ->
+  length sz = N.to_nat nc -> colno + row_span cells <= nc ->
+  sure (fun r => length (fst r) = N.to_nat nc)
+       (fold_left (fun acc c => do st <- acc; F c st) cells (Ok (sz, colno))).
+Proof.
+  induction cells as [|c cells IH]; intros sz colno HF Hl Hs; cbn [fold_left].
+  - exact Hl.
+  - cbn [bind]. unfold row_span in Hs. cbn [map sumN] in Hs. fold (row_span cells) in Hs.
+    pose proof (HF c (or_introl eq_refl) sz colno Hl ltac:(lia)) as H.
+    destruct (F c (sz, colno)) as [[sz' colno']| | |]; cbn [sure] in H; try contradiction.
+    cbn [fst snd] in H. destruct H as [H1 H2]. apply IH.
+    + intros c' Hc'. apply HF. right. exact Hc'.
+    + exact H1.
+    + lia.
+Qed.
+
+Section RenderLayerT.
+  Variable d : deco.
+  Variable mw : N.
+
+  (* the estimated minimum width of a node fits a usize *)
+  Definition small (n : rnode) : bool :=
+    match est_node d mw n with Ok e => e_min e <? usize_max | _ => false end.
+
+  (* The decidable side condition on the render tree:
+     - the table-internal node kinds (body/row/cell) do not occur as nodes (they are
+       `unreachable!` in do_render_node; Dom.build_element never leaves them in a tree, see
+       section 10),
+     - in every table every cell has colspan >= 1 and the colspans of a row add up to at most
+       the number of columns of the table,
+     - the estimated minimum width of every block that opens a prefixed sub-renderer is below
+       usize::MAX (with allow_width_overflow the sub-renderer gets at least that width). *)
+  Fixpoint wf (n : rnode) {struct n} : bool :=
+    match rn_info n with
+    | IText _ | IImg _ _ | IBreak | IFragStart _ => true
+    | IContainer cs | ILink _ cs | IEm cs | IStrong cs | IStrikeout cs | ICode cs | IBlock cs
+    | IListItem cs | IDiv cs | IDl cs | IDt cs | ISup cs => forallb wf cs
+    | IHeader _ cs | IBlockQuote cs | IUl cs | IOl _ cs | IDd cs => small n && forallb wf cs
+    | ITable rows ncols =>
+      forallb (fun r => match r with
+                        | RRow cells _ =>
+                          (sumN (map cell_colspan cells) <=? ncols) &&
+                          forallb (fun c => match c with
+                                            | RCell k content _ => (1 <=? k) && forallb wf content
+                                            end) cells
+                        end) rows
+    | ITableBody _ | ITableRow _ | ITableCell _ => false
+    end.
+
+  Definition cell_wf (c : rcell) : bool :=
+    match c with RCell k content _ => (1 <=? k) && forallb wf content end.
+  Definition row_wf (ncols : N) (r : rrow) : bool :=
+    match r with RRow cells _ => (row_span cells <=? ncols) && forallb cell_wf cells end.
+
+  Lemma wf_table rows ncols sty :
+    wf (RN (ITable rows ncols) sty) = forallb (row_wf ncols) rows.
+  Proof. reflexivity. Qed.
+
+  Definition est_ok (n : rnode) : Prop := wf n = true -> sure (fun _ => True) (est_node d mw n).
+
+  Lemma est_kids_sure cs :
+    Forall est_ok cs -> forallb wf cs = true -> sure (fun _ => True) (est_kids d mw cs).
+  Proof.
+    intros HF Hw. unfold est_kids.
+    apply (sure_fold (fun _ => True) (fun c a => do e <- est_node d mw c; Ok (est_add a e)));
+      [|exact I].
+    intros c Hc a _. rewrite Forall_forall in HF. rewrite forallb_forall in Hw.
+    eapply sure_bind; [apply (HF c Hc), Hw, Hc|]. intros e _. exact I.
+  Qed.
+
+  Lemma cell_est_sure c :
+    Forall est_ok (cell_content c) -> cell_wf c = true ->
+    sure (fun _ => True) (est_kids d mw (cell_content c)).
+  Proof.
+    destruct c as [k content csty]. cbn [cell_content cell_wf]. intros HF Hw.
+    apply andb_true_iff in Hw. apply est_kids_sure; tauto.
+  Qed.
+
+  Lemma est_ok_all : forall n, est_ok n.
+  Proof.
+    apply rnode_ind'. intros i sty IH Hw.
+    assert (Hk : forall cs, Forall est_ok cs -> forallb wf cs = true ->
+                 sure (fun _ => True)
+                   (fold_left (fun acc c => do a <- acc; do e <- est_node d mw c; Ok (est_add a e))
+                              cs (Ok est0))) by exact est_kids_sure.
+    destruct i; cbn [direct_kids] in IH; cbn [wf rn_info] in Hw; cbn [est_node rn_info];
+      try discriminate; try exact I; try (apply Hk; assumption);
+      try (apply andb_true_iff in Hw; destruct Hw as [_ Hw]).
+    - (* ILink *) eapply sure_bind; [apply Hk; assumption|]. intros; exact I.
+    - (* IHeader *) eapply sure_bind; [apply Hk; assumption|]. intros; exact I.
+    - (* IBlockQuote *) eapply sure_bind; [apply Hk; assumption|]. intros; exact I.
+    - (* IUl *) eapply sure_bind; [apply Hk; assumption|]. intros; exact I.
+    - (* IOl *) cbn [ol_prefix_size bind]. eapply sure_bind; [apply Hk; assumption|]. intros; exact I.
+    - (* IDd *) eapply sure_bind; [apply Hk; assumption|]. intros; exact I.
+    - (* ITable *)
+      change (forallb (row_wf ncols) rows = true) in Hw.
+      apply Forall_flat_map in IH. rewrite Forall_forall in IH. rewrite forallb_forall in Hw.
+      assert (Hcell : forall r c, In r rows -> In c (row_cells r) ->
+                sure (fun _ => True) (est_kids d mw (cell_content c)) /\ 1 <= cell_colspan c).
+      { intros r c Hr Hc. specialize (IH r Hr). unfold row_kids in IH.
+        apply Forall_flat_map in IH. rewrite Forall_forall in IH.
+        specialize (Hw r Hr). destruct r as [cells rsty]. cbn [row_wf row_cells] in *.
+        apply andb_true_iff in Hw. destruct Hw as [_ Hw]. rewrite forallb_forall in Hw.
+        specialize (Hw c Hc). split; [apply cell_est_sure; [apply IH, Hc|exact Hw]|].
+        destruct c as [k content csty]. cbn [cell_wf cell_colspan] in *.
+        apply andb_true_iff in Hw. lia. }
+      destruct (ncols =? 0).
+      + eapply sure_bind with (P := fun _ => True); [|intros; exact I].
+        apply (sure_fold (fun _ => True)
+                 (fun r (_ : unit) =>
+                    fold_left (fun acc2 c => do _b <- acc2;
+                                 do _c <- match c with
+                                          | RCell _ k _ =>
+                                            fold_left (fun acc c0 => do a <- acc; do e <- est_node d mw c0;
+                                                                     Ok (est_add a e)) k (Ok est0)
+                                          end; Ok tt)
+                              (row_cells r) (Ok tt))); [|exact I].
+        intros r Hr [] _.
+        apply (sure_fold (fun _ => True)
+                 (fun c (_ : unit) =>
+                    do _c <- match c with
+                             | RCell _ k _ =>
+                               fold_left (fun acc c0 => do a <- acc; do e <- est_node d mw c0;
+                                                        Ok (est_add a e)) k (Ok est0)
+                             end; Ok tt)); [|exact I].
+        intros c Hc [] _. destruct (Hcell r c Hr Hc) as [Hce _].
+        destruct c as [k content csty]. cbn [cell_content] in Hce.
+        eapply sure_bind; [exact Hce|]. intros; exact I.
+      + eapply sure_bind with (P := fun sizes => length sizes = N.to_nat ncols); [|intros; exact I].
+        apply (sure_fold (fun sizes => length sizes = N.to_nat ncols)
+                 (fun r s =>
+                    do res_ <- fold_left
+                      (fun acc c =>
+                         do st <- acc;
+                         let '(sz, colno) := st in
+                         do ce <- match c with
+                                  | RCell _ k _ =>
+                                    fold_left (fun acc1 c0 => do a <- acc1; do e <- est_node d mw c0;
+                                                              Ok (est_add a e)) k (Ok est0)
+                                  end;
+                         match upd_range sz (N.to_nat colno) (N.to_nat (cell_colspan c))
+                                 (fun s0 => mkest (e_size s0 + e_size ce / cell_colspan c)
+                                                  (N.max (e_min s0) (e_min ce / cell_colspan c))
+                                                  (e_prefix s0)) with
+                         | Some sz' => Ok (sz', colno + cell_colspan c)
+                         | None => Panic 31
+                         end) (row_cells r) (Ok (s, 0));
+                    Ok (fst res_))); [|apply repeat_length].
+        intros r Hr s Hs.
+        eapply sure_bind with (P := fun r => length (fst r) = N.to_nat ncols); [|intros a Ha; exact Ha].
+        apply (cells_fold_sure ncols
+                 (fun c st =>
+                    let '(sz, colno) := st in
+                    do ce <- match c with
+                             | RCell _ k _ =>
+                               fold_left (fun acc1 c0 => do a <- acc1; do e <- est_node d mw c0;
+                                                         Ok (est_add a e)) k (Ok est0)
+                             end;
+                    match upd_range sz (N.to_nat colno) (N.to_nat (cell_colspan c))
+                            (fun s0 => mkest (e_size s0 + e_size ce / cell_colspan c)
+                                             (N.max (e_min s0) (e_min ce / cell_colspan c))
+                                             (e_prefix s0)) with
+                    | Some sz' => Ok (sz', colno + cell_colspan c)
+                    | None => Panic 31
+                    end)); [|exact Hs|].
+        * intros c Hc sz colno Hl Hcol. destruct (Hcell r c Hr Hc) as [Hce _].
+          destruct c as [k content csty]. cbn [cell_content cell_colspan] in *.
+          eapply sure_bind; [exact Hce|]. intros ce _.
+          destruct (upd_range_some
+                      (fun s0 => mkest (e_size s0 + e_size ce / k) (N.max (e_min s0) (e_min ce / k))
+                                       (e_prefix s0)) sz (N.to_nat colno) (N.to_nat k))
+            as (r' & E & L); [lia|].
+          rewrite E. cbn [sure fst snd]. split; [congruence|reflexivity].
+        * specialize (Hw r Hr). destruct r as [cells rsty]. cbn [row_wf row_cells] in *.
+          apply andb_true_iff in Hw. lia.
+  Qed.
+
+  Lemma est_total n : wf n = true -> exists e, est_node d mw n = Ok e.
+  Proof.
+    intros H. destruct (sure_ex _ _ (est_ok_all n H)) as (e & E & _). eauto.
+  Qed.
+
+  (* ================================================================ *)
+  (* 5. The render layer: states, frames                               *)
+  (* ================================================================ *)
+
+  Definition st_inv (st : rstate) : Prop := stack st <> [] /\ Forall sub_t (stack st).
+
+  (* st' has the same stack as st below the top, and the tops are related by Q *)
+  Definition Rg (Q : subr -> subr -> Prop) (st st' : rstate) : Prop :=
+    st_inv st' /\ exists s s' rest, stack st = s :: rest /\ stack st' = s' :: rest /\ Q s s'.
+
+  Definition R : rstate -> rstate -> Prop := Rg dsame.
+
+  (* pure bookkeeping operations: everything but the preformat depth is untouched *)
+  Definition QD (rel : N -> N -> Prop) (s s' : subr) : Prop :=
+    swidth_ s' = swidth_ s /\ sopts s' = sopts s /\ slines s' = slines s /\
+    wrapping s' = wrapping s /\ filter_depth s' = filter_depth s /\
+    rel (pre_depth s) (pre_depth s').
+
+  Lemma QD_sub_t rel s s' : QD rel s s' -> sub_t s -> sub_t s'.
+  Proof. intros (a & b & c & e & _). apply sub_t_ext; assumption. Qed.
+
+  Lemma QD_dsame s s' : QD eq s s' -> dsame s s'.
+  Proof. intros (a & b & c & e & f & g). split; [split|split]; auto. Qed.
+
+  Lemma Rg_inv Q st st' : Rg Q st st' -> st_inv st'.
+  Proof. intros [H _]. exact H. Qed.
+
+  Lemma Rg_refl (Q : subr -> subr -> Prop) st : (forall s, Q s s) -> st_inv st -> Rg Q st st.
+  Proof.
+    intros HQ Hi. split; [exact Hi|]. destruct Hi as [Hne _].
+    destruct (stack st) as [|s rest] eqn:E; [congruence|]. exists s, s, rest. auto.
+  Qed.
+
+  Lemma Rg_comp (Q1 Q2 Q3 : subr -> subr -> Prop) a b c :
+    (forall x y z, Q1 x y -> Q2 y z -> Q3 x z) -> Rg Q1 a b -> Rg Q2 b c -> Rg Q3 a c.
+  Proof.
+    intros HQ [_ (s & s' & rest & E1 & E2 & H1)] [I (t & t' & rest' & E3 & E4 & H2)].
+    split; [exact I|]. rewrite E2 in E3. injection E3 as <- <-.
+    exists s, t', rest. split; [exact E1|]. split; [exact E4|]. eapply HQ; eassumption.
+  Qed.
+
+  Lemma Rg_weak (Q1 Q2 : subr -> subr -> Prop) a b :
+    (forall x y, Q1 x y -> Q2 x y) -> Rg Q1 a b -> Rg Q2 a b.
+  Proof.
+    intros HQ [I (s & s' & rest & E1 & E2 & H)]. split; [exact I|]. exists s, s', rest. auto.
+  Qed.
+
+  Lemma R_refl st : st_inv st -> R st st.
+  Proof. apply Rg_refl. exact dsame_refl. Qed.
+  Lemma R_trans a b c : R a b -> R b c -> R a c.
+  Proof. apply Rg_comp. exact dsame_trans. Qed.
+
+  Lemma R_stack_eq st st' : st_inv st -> stack st' = stack st -> R st st'.
+  Proof.
+    intros [Hne HF] E. split; [split; rewrite E; assumption|].
+    destruct (stack st) as [|s rest] eqn:Es; [congruence|]. exists s, s, rest.
+    split; [reflexivity|]. split; [exact E|apply dsame_refl].
+  Qed.
+
+  Lemma with_top_Q (Q : subr -> subr -> Prop) f st :
+    st_inv st ->
+    (forall s rest, stack st = s :: rest -> sub_t s -> okp (fun s' => sub_t s' /\ Q s s') (f s)) ->
+    okp (Rg Q st) (with_top st f).
+  Proof.
+    intros [Hne HF] Hf. unfold with_top. destruct (stack st) as [|s rest] eqn:E; [congruence|].
+    inversion HF as [|? ? Hs Hrest]; subst.
+    eapply okp_bind; [apply (Hf s rest eq_refl Hs)|]. intros s' [A B]. cbn [okp].
+    split; [split; cbn [stack]; [discriminate|constructor; assumption]|].
+    exists s, s', rest. cbn [stack]. auto.
+  Qed.
+
+  Lemma with_top_tot f st : tot f -> st_inv st -> okp (R st) (with_top st f).
+  Proof. intros Hf Hi. apply with_top_Q; [exact Hi|]. intros s rest _ Hs. apply Hf, Hs. Qed.
+
+  Lemma with_top'_QD rel g st :
+    st_inv st -> (forall s, QD rel s (g s)) -> okp (Rg (QD rel) st) (with_top' st g).
+  Proof.
+    intros Hi Hg. unfold with_top'. apply with_top_Q; [exact Hi|].
+    intros s rest _ Hs. cbn [okp]. split; [eapply QD_sub_t; [apply Hg|exact Hs]|apply Hg].
+  Qed.
+
+  Lemma QD_refl s : QD eq s s.
+  Proof. repeat split. Qed.
+
+  Lemma push_colour_QD r g b s : QD eq s (push_colour d s r g b).
+  Proof. unfold push_colour, push_ann. destruct (d_colours d); sprj; repeat split. Qed.
+  Lemma push_bgcolour_QD r g b s : QD eq s (push_bgcolour d s r g b).
+  Proof. unfold push_bgcolour, push_ann. destruct (d_colours d); sprj; repeat split. Qed.
+  Lemma pop_colour_QD s : QD eq s (pop_colour d s).
+  Proof. unfold pop_colour, pop_ann. destruct (d_colours d); sprj; repeat split. Qed.
+  Lemma push_ws_mode_QD m s : QD eq s (push_ws_mode s m).
+  Proof. unfold push_ws_mode. sprj. repeat split. Qed.
+  Lemma pop_ws_mode_QD s : QD eq s (pop_ws_mode s).
+  Proof. unfold pop_ws_mode. sprj. repeat split. Qed.
+  Lemma push_preformat_QD s : QD (fun a b => b = a + 1) s (push_preformat s).
+  Proof. unfold push_preformat. sprj. repeat split. Qed.
+
+  (* a conditional bookkeeping step after a chain of such steps *)
+  Lemma QD_step (rel1 rel2 rel3 : N -> N -> Prop) st st1 (r : res rstate) :
+    (forall a b c, rel1 a b -> rel2 b c -> rel3 a c) ->
+    Rg (QD rel1) st st1 -> okp (Rg (QD rel2) st1) r -> okp (Rg (QD rel3) st) r.
+  Proof.
+    intros Hrel R1 H. eapply okp_mono; [exact H|]. intros st2 R2.
+    eapply Rg_comp; [|exact R1|exact R2].
+    intros x y z (a1 & a2 & a3 & a4 & a5 & a6) (b1 & b2 & b3 & b4 & b5 & b6).
+    repeat split; try congruence. eapply Hrel; eassumption.
+  Qed.
+
+  Definition pre_plus (b : bool) : N -> N -> Prop := fun x y => y = x + (if b then 1 else 0).
+  Definition pre_minus (b : bool) : N -> N -> Prop := fun x y => y = x - (if b then 1 else 0).
+
+  Lemma apply_style_T st cs :
+    st_inv st ->
+    okp (fun ap => Rg (QD (pre_plus (p_pre (snd ap)))) st (fst ap)) (apply_style d st cs).
+  Proof.
+    intros Hi. unfold apply_style.
+    eapply okp_bind with (P := Rg (QD eq) st).
+    { destruct (ws_val (c_colour (cs_core cs))) as [[[r g] b]|].
+      - apply with_top'_QD; [exact Hi|apply push_colour_QD].
+      - cbn [okp]. apply Rg_refl; [exact QD_refl|exact Hi]. }
+    intros st1 R1.
+    eapply okp_bind with (P := Rg (QD eq) st).
+    { eapply (QD_step eq eq eq); [intros; congruence|exact R1|].
+      destruct (ws_val (c_bg (cs_core cs))) as [[[r g] b]|].
+      - apply with_top'_QD; [exact (Rg_inv _ _ _ R1)|apply push_bgcolour_QD].
+      - cbn [okp]. apply Rg_refl; [exact QD_refl|exact (Rg_inv _ _ _ R1)]. }
+    intros st2 R2.
+    eapply okp_bind with (P := Rg (QD eq) st).
+    { eapply (QD_step eq eq eq); [intros; congruence|exact R2|].
+      destruct (match ws_val (c_white_space (cs_core cs)) with
+                | Some WsPre => Some WsPre
+                | Some WsPreWrap => Some WsPreWrap
+                | _ => None
+                end) as [m|].
+      - apply with_top'_QD; [exact (Rg_inv _ _ _ R2)|apply push_ws_mode_QD].
+      - cbn [okp]. apply Rg_refl; [exact QD_refl|exact (Rg_inv _ _ _ R2)]. }
+    intros st3 R3.
+    eapply okp_bind with (P := Rg (QD (pre_plus (cs_internal_pre cs))) st).
+    { eapply (QD_step eq (pre_plus (cs_internal_pre cs)) (pre_plus (cs_internal_pre cs)));
+        [unfold pre_plus; intros; congruence|exact R3|].
+      destruct (cs_internal_pre cs).
+      - apply with_top'_QD; [exact (Rg_inv _ _ _ R3)|]. exact push_preformat_QD.
+      - cbn [okp]. apply Rg_refl; [|exact (Rg_inv _ _ _ R3)].
+        intros s. unfold pre_plus. repeat split. lia. }
+    intros st4 R4. cbn [okp fst snd p_pre]. exact R4.
+  Qed.
+
+  Lemma pop_preformat_Q s :
+    0 < pre_depth s -> sub_t s ->
+    okp (fun s' => sub_t s' /\ QD (fun a b => b = a - 1) s s') (pop_preformat s).
+  Proof.
+    intros Hp Hs. unfold pop_preformat. destruct (N.ltb_spec 0 (pre_depth s)); [|lia].
+    cbn [okp]. assert (Q : QD (fun a b => b = a - 1) s (set_pre_depth s (pre_depth s - 1))).
+    { sprj. repeat split. }
+    split; [eapply QD_sub_t; eassumption|exact Q].
+  Qed.
+
+  Lemma unwind_T p st :
+    st_inv st ->
+    (p_pre p = true -> exists s rest, stack st = s :: rest /\ 0 < pre_depth s) ->
+    okp (Rg (QD (pre_minus (p_pre p))) st) (unwind d p st).
+  Proof.
+    intros Hi Hpre. unfold unwind.
+    eapply okp_bind with (P := Rg (QD eq) st).
+    { destruct (p_bg p).
+      - apply with_top'_QD; [exact Hi|apply pop_colour_QD].
+      - cbn [okp]. apply Rg_refl; [exact QD_refl|exact Hi]. }
+    intros st1 R1.
+    eapply okp_bind with (P := Rg (QD eq) st).
+    { eapply (QD_step eq eq eq); [intros; congruence|exact R1|].
+      destruct (p_colour p).
+      - apply with_top'_QD; [exact (Rg_inv _ _ _ R1)|apply pop_colour_QD].
+      - cbn [okp]. apply Rg_refl; [exact QD_refl|exact (Rg_inv _ _ _ R1)]. }
+    intros st2 R2.
+    eapply okp_bind with (P := Rg (QD eq) st).
+    { eapply (QD_step eq eq eq); [intros; congruence|exact R2|].
+      destruct (p_ws p).
+      - apply with_top'_QD; [exact (Rg_inv _ _ _ R2)|apply pop_ws_mode_QD].
+      - cbn [okp]. apply Rg_refl; [exact QD_refl|exact (Rg_inv _ _ _ R2)]. }
+    intros st3 R3.
+    eapply (QD_step eq (pre_minus (p_pre p)) (pre_minus (p_pre p)));
+      [unfold pre_minus; intros; congruence|exact R3|].
+    destruct (p_pre p) eqn:Ep.
+    - apply with_top_Q; [exact (Rg_inv _ _ _ R3)|]. intros s3 rest3 E3 Hs3.
+      destruct (Hpre eq_refl) as (s & rest & E & Hpos).
+      destruct R3 as [_ (x & x' & r & X1 & X2 & X3)].
+      rewrite E in X1. injection X1 as <- <-. rewrite E3 in X2. injection X2 as <- <-.
+      destruct X3 as (_ & _ & _ & _ & _ & X6).
+      eapply okp_mono; [apply pop_preformat_Q; [lia|exact Hs3]|].
+      intros s' [A B]. split; [exact A|]. unfold pre_minus. exact B.
+    - cbn [okp]. apply Rg_refl; [|exact (Rg_inv _ _ _ R3)].
+      intros s. unfold pre_minus. repeat split. lia.
+  Qed.
+
+  (* the end of every node: undo what apply_style pushed *)
+  Lemma fin_T st st1 ps st2 :
+    Rg (QD (pre_plus (p_pre ps))) st st1 -> R st1 st2 -> okp (R st) (unwind d ps st2).
+  Proof.
+    intros R1 R2.
+    assert (R12 : Rg (fun s s' => same s s' /\ filter_depth s' = filter_depth s /\
+                                  pre_depth s' = pre_depth s + (if p_pre ps then 1 else 0)) st st2).
+    { eapply Rg_comp; [|exact R1|exact R2].
+      intros x y z (a1 & a2 & a3 & a4 & a5 & a6) ((b1 & b2) & b3 & b4). unfold pre_plus in a6.
+      split; [split; congruence|]. split; congruence. }
+    eapply okp_mono.
+    { apply (unwind_T ps st2 (Rg_inv _ _ _ R2)). intros Ep.
+      destruct R12 as [_ (s & s' & rest & E1 & E2 & _ & _ & E3)].
+      exists s', rest. split; [exact E2|]. rewrite E3, Ep. lia. }
+    intros st3 R3. eapply Rg_comp; [|exact R12|exact R3].
+    intros x y z ((a1 & a2) & a3 & a4) (b1 & b2 & b3 & b4 & b5 & b6). unfold pre_minus in b6.
+    split; [split; congruence|]. split; [|congruence]. rewrite b6, a4. destruct (p_pre ps); lia.
+  Qed.
+
+  Lemma inline_text_T t st : st_inv st -> okp (R st) (inline_text d st t).
+  Proof. intros Hi. unfold inline_text. apply with_top_tot; [apply add_inline_text_tot|exact Hi]. Qed.
+
+  (* ---- the per-node property and the fold over children ---- *)
+  Definition node_t (n : rnode) : Prop :=
+    wf n = true -> forall st, st_inv st -> okp (R st) (render_node d mw n st).
+
+  Lemma kids_T cs st :
+    Forall node_t cs -> forallb wf cs = true -> st_inv st ->
+    okp (R st) (fold_left (fun acc c => do s <- acc; render_node d mw c s) cs (Ok st)).
+  Proof.
+    intros HF Hw Hi.
+    apply (okp_fold (R st) (render_node d mw) cs); [|apply R_refl, Hi].
+    intros c Hc a Ra. rewrite Forall_forall in HF. rewrite forallb_forall in Hw.
+    eapply okp_mono; [apply (HF c Hc (Hw c Hc) a (Rg_inv _ _ _ Ra))|].
+    intros a' Ra'. eapply R_trans; eassumption.
+  Qed.
+
+  Lemma wrap_T (f1 f2 : subr -> res subr) cs st st1 ps a :
+    tot f1 -> tot f2 -> Forall node_t cs -> forallb wf cs = true ->
+    Rg (QD (pre_plus (p_pre ps))) st st1 -> R st1 a ->
+    okp (R st)
+        (do a' <- with_top a f1;
+         do b <- fold_left (fun acc c => do s <- acc; render_node d mw c s) cs (Ok a');
+         do c <- with_top b f2; unwind d ps c).
+  Proof.
+    intros K1 K2 HF Hw R1 R0.
+    eapply okp_bind; [apply (with_top_tot f1 a K1 (Rg_inv _ _ _ R0))|]. intros a' Ra.
+    eapply okp_bind; [apply (kids_T cs a' HF Hw (Rg_inv _ _ _ Ra))|]. intros b Rb.
+    eapply okp_bind; [apply (with_top_tot f2 b K2 (Rg_inv _ _ _ Rb))|]. intros c Rc.
+    eapply fin_T; [exact R1|]. eapply R_trans; [exact R0|]. eapply R_trans; [exact Ra|].
+    eapply R_trans; eassumption.
+  Qed.
+
+  (* ---- nested sub-renderers ---- *)
+  Lemma top_T st :
+    st_inv st -> exists tp rest, top st = Ok tp /\ stack st = tp :: rest /\ sub_t tp.
+  Proof.
+    intros [Hne HF]. unfold top. destruct (stack st) as [|s rest]; [congruence|].
+    exists s, rest. inversion HF; auto.
+  Qed.
+
+  Lemma width_minus_T tp p m : okp (fun w => w <= N.max (swidth_ tp) m) (width_minus tp p m).
+  Proof.
+    unfold width_minus.
+    destruct (((swidth_ tp - p <? m) || (swidth_ tp <? p)) && negb (o_allow_overflow (sopts tp)));
+      cbn [okp]; lia.
+  Qed.
+
+  Lemma push_inv st tp w :
+    st_inv st -> w < usize_max -> st_inv (push_sub st (new_sub_renderer tp w)).
+  Proof.
+    intros [Hne HF] Hw. split; cbn [push_sub stack]; [discriminate|].
+    constructor; [apply new_sub_renderer_t, Hw|exact HF].
+  Qed.
+
+  Lemma pop_T st sub0 st2 :
+    st_inv st -> R (push_sub st sub0) st2 ->
+    okp (fun pp => sub_t (fst pp) /\ dsame sub0 (fst pp) /\ stack (snd pp) = stack st /\
+                   st_inv (snd pp)) (pop_sub st2).
+  Proof.
+    intros Hi [[_ HF2] (s & s' & rest & E1 & E2 & Hd)]. cbn [push_sub stack] in E1.
+    injection E1 as <- <-. unfold pop_sub. rewrite E2. cbn [okp fst snd stack].
+    rewrite E2 in HF2. inversion HF2; subst. split; [assumption|]. split; [exact Hd|].
+    split; [reflexivity|]. exact Hi.
+  Qed.
+
+  (* prefixed block: after the body the child renderer can be appended *)
+  Lemma scope_T {X} st tp w (body : res rstate) (k : subr * rstate -> res X) (Q : X -> Prop) :
+    st_inv st -> w < usize_max ->
+    okp (R (push_sub st (new_sub_renderer tp w))) body ->
+    (forall sub st3, sub_t sub -> sopts sub = sopts tp -> R st st3 -> okp Q (k (sub, st3))) ->
+    okp Q (do st2 <- body; do pp <- pop_sub st2; k pp).
+  Proof.
+    intros Hi Hw Hb Hk. eapply okp_bind; [exact Hb|]. intros st2 R2.
+    eapply okp_bind; [apply (pop_T st _ st2 Hi R2)|].
+    intros [sub st3] (A & B & C & D). cbn [fst snd] in *. apply Hk; [exact A| |].
+    - rewrite (dsame_opts _ _ B). apply new_sub_renderer_t, Hw.
+    - apply R_stack_eq; assumption.
+  Qed.
+
+  Lemma sure_okp {A} (P : A -> Prop) (r : res A) : sure P r -> okp P r.
+  Proof. destruct r; cbn; auto. Qed.
+
+  (* ---- table arithmetic ---- *)
+  Lemma sumN_firstn_le k l : sumN (firstn k l) <= sumN l.
+  Proof. pose proof (sumN_firstn_skipn k l). lia. Qed.
+  Lemma sumN_skipn_le k l : sumN (skipn k l) <= sumN l.
+  Proof. pose proof (sumN_firstn_skipn k l). lia. Qed.
+
+  Lemma nth_opt_lt {A} : forall (l : list A) n, (n < length l)%nat -> exists x, nth_opt l n = Some x.
+  Proof.
+    induction l as [|a l IH]; intros n H; cbn [length] in H; [lia|].
+    destruct n; cbn [nth_opt]; [eauto|]. apply IH. lia.
+  Qed.
+
+  Definition cw_ok (B : N) (o : option N) : Prop :=
+    match o with Some w => w <= B | None => True end.
+
+  Lemma cell_widths_T vr ws_ B : forall cells colno,
+    Forall (fun c => 1 <= cell_colspan c) cells ->
+    colno + row_span cells <= N.of_nat (length ws_) ->
+    (vr = false -> sumN ws_ + N.of_nat (length ws_) <= B + 1) ->
+    (vr = true -> forall w, In w ws_ -> w <= B) -> B < usize_max ->
+    sure (fun cws => Forall (cw_ok B) cws /\
+                     (vr = false -> (exists w, In (Some w) cws) -> sumN ws_ <> 0))
+         (cell_widths vr ws_ cells colno).
+  Proof.
+    induction cells as [|c cells IH]; intros colno Hc Hs Hh Hv HB; cbn [cell_widths].
+    - cbn [sure]. split; [constructor|]. intros _ (w & []).
+    - inversion Hc as [|? ? Hc1 Hc2]; subst.
+      unfold row_span in Hs. cbn [map sumN] in Hs. fold (row_span cells) in Hs.
+      eapply sure_bind with
+        (P := fun cw_ => (vr = false -> cw_ + cell_colspan c <= B + 1 /\ (0 < cw_ -> sumN ws_ <> 0)) /\
+                         (vr = true -> cw_ <= B)).
+      { destruct vr.
+        - destruct (nth_opt_lt ws_ (N.to_nat colno)) as [w E]; [lia|]. rewrite E. cbn [sure].
+          split; [discriminate|]. intros _. apply Hv; [reflexivity|]. eapply nth_opt_In, E.
+        - destruct (N.ltb_spec (N.of_nat (length ws_)) (colno + cell_colspan c)); [lia|].
+          cbn [sure]. split; [|discriminate]. intros _.
+          pose proof (sumN_firstn_le (N.to_nat (cell_colspan c)) (skipn (N.to_nat colno) ws_)).
+          pose proof (sumN_skipn_le (N.to_nat colno) ws_).
+          specialize (Hh eq_refl). split; lia. }
+      intros cw_ [P1 P2].
+      eapply sure_bind; [apply (IH (colno + cell_colspan c) Hc2); [lia|assumption..]|].
+      intros r [R1 R2].
+      destruct (N.ltb_spec 0 cw_) as [Hpos|Hz].
+      + destruct vr.
+        * cbn [sure]. split; [constructor; [apply P2; reflexivity|exact R1]|discriminate].
+        * destruct (P1 eq_refl) as [P3 P4].
+          unfold uadd. destruct (N.leb_spec (cw_ + cell_colspan c) usize_max); [|lia].
+          cbn [bind]. rewrite usub_ok by lia. cbn [bind sure].
+          split; [constructor; [cbn [cw_ok]; lia|exact R1]|]. intros _ _. apply P4, Hpos.
+      + cbn [sure]. split; [constructor; [exact I|exact R1]|].
+        intros Ev (w & [E|Hw]); [discriminate|]. apply R2; eauto.
+  Qed.
+
+  Definition sub_of (tp : subr) (c : subr) : Prop := sub_t c /\ sopts c = sopts tp.
+
+  Lemma cells_loop_T : forall cells wsl s2 subs tp rest,
+    Forall (fun c => Forall node_t (cell_content c)) cells ->
+    forallb cell_wf cells = true ->
+    st_inv s2 -> stack s2 = tp :: rest -> swidth_ tp < usize_max ->
+    Forall (cw_ok (swidth_ tp)) wsl ->
+    Forall (sub_of tp) subs ->
+    okp (fun r => stack (fst r) = stack s2 /\ st_inv (fst r) /\ Forall (sub_of tp) (snd r) /\
+                  (snd r = subs \/ exists w, In (Some w) wsl))
+        (cells_loop d mw cells wsl s2 subs).
+  Proof.
+    induction cells as [|[n content csty] cells IH]; intros wsl s2 subs tp rest HF Hw Hi Es HB Hwsl Hs;
+      cbn [cells_loop].
+    - cbn [okp fst snd]. auto.
+    - inversion HF as [|? ? HF1 HF2]; subst. cbn [cell_content] in HF1.
+      cbn [forallb cell_wf] in Hw. apply andb_true_iff in Hw. destruct Hw as [Hw1 Hw2].
+      apply andb_true_iff in Hw1. destruct Hw1 as [_ Hw1].
+      destruct wsl as [|[w|] wsl].
+      + cbn [okp fst snd]. auto.
+      + inversion Hwsl as [|? ? Hw0 Hwsl']; subst. cbn [cw_ok] in Hw0.
+        unfold top. rewrite Es. cbn [bind].
+        assert (Hwlt : w < usize_max) by lia.
+        pose proof (push_inv s2 tp w Hi Hwlt) as Ip.
+        eapply okp_bind; [apply apply_style_T, Ip|]. intros [s4 pcell] Ra. cbn [fst snd] in Ra.
+        eapply okp_bind; [apply (kids_T content s4 HF1 Hw1 (Rg_inv _ _ _ Ra))|]. intros s5 Rb.
+        eapply okp_bind; [apply (fin_T _ _ _ _ Ra Rb)|]. intros s6 Rc.
+        eapply okp_bind; [apply (pop_T s2 _ s6 Hi Rc)|].
+        intros [sub s7] (A & B & C & D). cbn [fst snd] in *.
+        eapply okp_mono.
+        { apply (IH wsl s7 (subs ++ [sub]) tp rest HF2 Hw2 D); [congruence|exact HB|exact Hwsl'|].
+          apply Forall_app. split; [exact Hs|]. constructor; [|constructor].
+          split; [exact A|]. rewrite (dsame_opts _ _ B). apply new_sub_renderer_t, Hwlt. }
+        intros r (E1 & E2 & E3 & E4). split; [congruence|]. split; [exact E2|]. split; [exact E3|].
+        right. destruct E4 as [_|(w' & Hw')]; [exists w; left; reflexivity|exists w'; right; exact Hw'].
+      + inversion Hwsl as [|? ? _ Hwsl']; subst.
+        eapply okp_mono; [apply (IH wsl s2 subs tp rest HF2 Hw2 Hi Es HB Hwsl' Hs)|].
+        intros r (E1 & E2 & E3 & E4). split; [exact E1|]. split; [exact E2|]. split; [exact E3|].
+        destruct E4 as [E4|(w' & Hw')]; [left; exact E4|right; exists w'; right; exact Hw'].
+  Qed.
+
+  Definition keepL (s s' : subr) : Prop :=
+    slines s' = slines s /\ wrapping s' = wrapping s /\ sopts s' = sopts s.
+
+  Lemma fin_TL st st1 ps st2 :
+    Rg (QD (pre_plus (p_pre ps))) st st1 -> R st1 st2 ->
+    okp (fun st3 => R st st3 /\ Rg keepL st2 st3) (unwind d ps st2).
+  Proof.
+    intros R1 R2.
+    assert (R12 : Rg (fun s s' => same s s' /\ filter_depth s' = filter_depth s /\
+                                  pre_depth s' = pre_depth s + (if p_pre ps then 1 else 0)) st st2).
+    { eapply Rg_comp; [|exact R1|exact R2].
+      intros x y z (a1 & a2 & a3 & a4 & a5 & a6) ((b1 & b2) & b3 & b4). unfold pre_plus in a6.
+      split; [split; congruence|]. split; congruence. }
+    eapply okp_mono.
+    { apply (unwind_T ps st2 (Rg_inv _ _ _ R2)). intros Ep.
+      destruct R12 as [_ (s & s' & rest & E1 & E2 & _ & _ & E3)].
+      exists s', rest. split; [exact E2|]. rewrite E3, Ep. lia. }
+    intros st3 R3. split.
+    - eapply Rg_comp; [|exact R12|exact R3].
+      intros x y z ((a1 & a2) & a3 & a4) (b1 & b2 & b3 & b4 & b5 & b6). unfold pre_minus in b6.
+      split; [split; congruence|]. split; [|congruence]. rewrite b6, a4. destruct (p_pre ps); lia.
+    - eapply Rg_weak; [|exact R3]. intros x y (b1 & b2 & b3 & b4 & _). repeat split; assumption.
+  Qed.
+
+  (* the state of the table's own renderer between two rows *)
+  Definition TB (need : Prop) (tp : subr) : Prop :=
+    wrapping tp = None /\ (need -> o_borders (sopts tp) = true -> lastR tp).
+
+  Lemma TB_keep need s s' :
+    slines s' = slines s -> wrapping s' = wrapping s -> sopts s' = sopts s -> TB need s -> TB need s'.
+  Proof. unfold TB, lastR. intros -> -> ->. auto. Qed.
+
+  Lemma existsb_nonempty {A} (f : A -> bool) l : existsb f l = true -> l <> [].
+  Proof. destruct l; [discriminate|discriminate]. Qed.
+
+  Lemma row_body_T vr col_widths ncols r s tp rest :
+    Forall (fun c => Forall node_t (cell_content c)) (row_cells r) ->
+    row_wf ncols r = true -> length col_widths = N.to_nat ncols ->
+    (vr = false -> sumN col_widths + N.of_nat (length col_widths) <= swidth_ tp + 1) ->
+    (vr = true -> forall w, In w col_widths -> w <= swidth_ tp) ->
+    st_inv s -> stack s = tp :: rest ->
+    (vr = false -> TB (sumN col_widths <> 0) tp) ->
+    okp (fun s' => R s s' /\
+                   (vr = false -> exists tp' rest', stack s' = tp' :: rest' /\
+                                                    TB (sumN col_widths <> 0) tp'))
+        (row_body d mw vr col_widths r s).
+  Proof.
+    intros HF Hw Hlen Hh Hv Hi Es Htb. destruct r as [rcells rstyle]. cbn [row_cells row_wf] in *.
+    apply andb_true_iff in Hw. destruct Hw as [Hspan Hcw].
+    assert (Htp : sub_t tp). { destruct Hi as [_ F]. rewrite Es in F. inversion F; assumption. }
+    pose proof Htp as (_ & _ & _ & HB).
+    unfold row_body.
+    eapply okp_bind; [apply apply_style_T, Hi|]. intros [s1 prow] R1. cbn [fst snd] in R1.
+    pose proof R1 as [I1 (x & tp1 & r1 & X1 & Es1 & Q1)].
+    rewrite Es in X1. injection X1 as <- <-.
+    pose proof Q1 as (q1 & q2 & q3 & q4 & q5 & q6).
+    eapply okp_bind.
+    { apply sure_okp, (cell_widths_T vr col_widths (swidth_ tp) rcells 0).
+      - apply Forall_forall. intros c Hc. rewrite forallb_forall in Hcw. specialize (Hcw c Hc).
+        destruct c as [k content csty]. cbn [cell_wf cell_colspan] in *.
+        apply andb_true_iff in Hcw. lia.
+      - rewrite Hlen. lia.
+      - exact Hh.
+      - exact Hv.
+      - exact HB. }
+    intros cws [C1 C2].
+    eapply okp_bind.
+    { apply (cells_loop_T rcells cws s1 [] tp1 rest HF Hcw I1 Es1); [lia| |constructor].
+      rewrite q1. exact C1. }
+    intros [s8 subs] (E1 & E2 & E3 & E4). cbn [fst snd] in *.
+    assert (R18 : R s1 s8) by (apply R_stack_eq; assumption).
+    assert (Es8 : stack s8 = tp1 :: rest) by congruence.
+    assert (Hsubs : Forall sub_t subs).
+    { eapply Forall_impl; [|exact E3]. intros c [A _]. exact A. }
+    eapply okp_bind with
+      (P := fun s9 => R s1 s9 /\
+                      (vr = false -> exists tp9 rest9, stack s9 = tp9 :: rest9 /\
+                                                       TB (sumN col_widths <> 0) tp9)).
+    { destruct vr.
+      - eapply okp_mono; [apply (with_top_tot _ s8 (append_vert_row_tot subs Hsubs) E2)|].
+        intros s9 R9. split; [eapply R_trans; eassumption|discriminate].
+      - specialize (Htb eq_refl). destruct Htb as [T1 T2].
+        assert (Htb1 : TB (sumN col_widths <> 0) tp1).
+        { apply (TB_keep _ tp); auto. split; assumption. }
+        destruct (existsb (fun c => negb (sub_empty c)) subs) eqn:Ex.
+        + eapply okp_mono.
+          { apply (with_top_Q
+                     (fun s s' => dsame s s' /\ wrapping s' = None /\
+                                  (o_borders (sopts s) = true -> lastR s')) _ s8 E2).
+            intros t rest' Et Ht. rewrite Es8 in Et. injection Et as <- <-.
+            eapply okp_mono.
+            { apply (append_columns_t tp1 subs true Ht).
+              - destruct Htb1 as [A _]. exact A.
+              - eapply existsb_nonempty, Ex.
+              - eapply Forall_impl; [|exact E3]. intros c [A B]. split; [exact A|]. rewrite B. reflexivity.
+              - destruct Htb1 as [_ A]. apply A.
+                destruct E4 as [E4|E4]; [subst subs; discriminate|]. apply C2; [reflexivity|exact E4]. }
+            intros t' (A & B & C & D). auto. }
+          intros s9 R9. split.
+          * eapply R_trans; [exact R18|]. eapply Rg_weak; [|exact R9]. intros a b (A & _). exact A.
+          * intros _. destruct R9 as [_ (a & b & r9 & A1 & A2 & A3 & A4 & A5)].
+            exists b, r9. split; [exact A2|]. split; [exact A4|]. intros _ Hb. apply A5.
+            rewrite (dsame_opts _ _ A3) in Hb. exact Hb.
+        + cbn [okp]. split; [exact R18|]. intros _. exists tp1, rest. auto. }
+    intros s9 [R9 T9].
+    eapply okp_mono; [apply (fin_TL _ _ _ _ R1 R9)|].
+    intros s' [A B]. split; [exact A|]. intros Ev.
+    destruct (T9 Ev) as (tp9 & rest9 & Et9 & Htb9).
+    destruct B as [_ (a & b & r & B1 & B2 & B3 & B4 & B5)].
+    rewrite Et9 in B1. injection B1 as <- <-. exists b, rest9. split; [exact B2|].
+    apply (TB_keep _ tp9); assumption.
+  Qed.
+
+  Lemma prefixed_est cs pw sz :
+    (do e <- est_kids d mw cs;
+     let r := est_add_hor e (mkest pw pw 0) in Ok (mkest (e_size r) (e_min r) pw)) = Ok sz ->
+    e_prefix sz = pw /\ pw <= e_min sz.
+  Proof.
+    intros H. bind_inv H e He. injection H as <-. cbn [e_prefix e_min est_add_hor]. lia.
+  Qed.
+
+  Ltac startT Hw Hi sz Hsz st1 ps R1 :=
+    match goal with |- okp _ (render_node _ _ ?n _) =>
+      destruct (est_total n Hw) as [sz Hsz] end;
+    cbn [render_node rn_info rn_style]; unfold est_of; rewrite Hsz; cbn [bind];
+    (eapply okp_bind; [apply apply_style_T, Hi|]); intros [st1 ps] R1; cbn [fst snd] in R1.
+
+  Lemma node_t_all : forall n, node_t n.
+  Proof.
+    apply rnode_ind'. intros i sty IH Hw st Hi.
+    destruct i; cbn [direct_kids] in IH; try (cbn [wf rn_info] in Hw; discriminate).
+    - (* IText *)
+      startT Hw Hi sz Hsz st1 ps R1.
+      eapply okp_bind; [apply inline_text_T, (Rg_inv _ _ _ R1)|]. intros st2 R2.
+      eapply fin_T; eassumption.
+    - (* IContainer *)
+      startT Hw Hi sz Hsz st1 ps R1. cbn [wf rn_info] in Hw.
+      eapply okp_bind; [apply (kids_T cs st1 IH Hw (Rg_inv _ _ _ R1))|]. intros st2 R2.
+      eapply fin_T; eassumption.
+    - (* ILink *)
+      startT Hw Hi sz Hsz st1 ps R1. cbn [wf rn_info] in Hw.
+      pose proof (Rg_inv _ _ _ R1) as I1.
+      assert (R1' : R st1 (mkrst (stack st1) (links st1 ++ [href]))) by (apply R_stack_eq; auto).
+      eapply okp_bind; [apply (with_top_tot _ _ (sub_start_link_tot d href) (Rg_inv _ _ _ R1'))|].
+      intros st2 R2.
+      eapply okp_bind; [apply (kids_T cs st2 IH Hw (Rg_inv _ _ _ R2))|]. intros st3 R3.
+      eapply okp_bind; [apply (with_top_tot _ _ (sub_end_link_tot d) (Rg_inv _ _ _ R3))|].
+      intros st4 R4.
+      destruct (top_T st4 (Rg_inv _ _ _ R4)) as (tp & rest & Et & _). rewrite Et. cbn [bind].
+      eapply okp_bind with (P := R st4).
+      { destruct (o_footnotes (sopts tp)).
+        - apply inline_text_T, (Rg_inv _ _ _ R4).
+        - cbn [okp]. apply R_refl, (Rg_inv _ _ _ R4). }
+      intros st5 R5. eapply fin_T; [exact R1|].
+      eapply R_trans; [exact R1'|]. eapply R_trans; [exact R2|]. eapply R_trans; [exact R3|].
+      eapply R_trans; eassumption.
+    - (* IEm *)
+      startT Hw Hi sz Hsz st1 ps R1. cbn [wf rn_info] in Hw.
+      apply (wrap_T (start_emphasis d) (end_emphasis d) cs st st1 ps st1); auto.
+      + apply start_emphasis_tot. + apply end_emphasis_tot. + apply R_refl, (Rg_inv _ _ _ R1).
+    - (* IStrong *)
+      startT Hw Hi sz Hsz st1 ps R1. cbn [wf rn_info] in Hw.
+      apply (wrap_T (start_strong d) (end_strong d) cs st st1 ps st1); auto.
+      + apply start_strong_tot. + apply end_strong_tot. + apply R_refl, (Rg_inv _ _ _ R1).
+    - (* IStrikeout *)
+      startT Hw Hi sz Hsz st1 ps R1. cbn [wf rn_info] in Hw.
+      eapply okp_bind.
+      { apply (with_top_Q (fun s s' => same s s' /\ pre_depth s' = pre_depth s /\
+                                        filter_depth s' = strike_inc s) _ st1 (Rg_inv _ _ _ R1)).
+        intros s rest _ Hs. apply start_strikeout_t, Hs. }
+      intros a Ra.
+      eapply okp_bind; [apply (kids_T cs a IH Hw (Rg_inv _ _ _ Ra))|]. intros b Rb.
+      assert (Rab : Rg (fun s s' => same s s' /\ pre_depth s' = pre_depth s /\
+                                    filter_depth s' = strike_inc s) st1 b).
+      { eapply Rg_comp; [|exact Ra|exact Rb].
+        intros x y z (a1 & a2 & a3) ((b1 & b2) & b3 & b4).
+        split; [eapply same_trans; [exact a1|split; assumption]|]. split; congruence. }
+      destruct Rab as [Ib (s0 & sb & rest0 & E0 & Eb & (q1 & q2) & q3 & q4)].
+      eapply okp_bind.
+      { apply (with_top_Q (fun s s' => same s s' /\ pre_depth s' = pre_depth s /\
+                                        filter_depth s' = filter_depth s0) _ b Ib).
+        intros s rest Es Hs. rewrite Eb in Es. injection Es as <- <-.
+        apply (end_strikeout_t d sb s0 Hs q2 q4). }
+      intros c Rc. eapply fin_T; [exact R1|].
+      split; [exact (Rg_inv _ _ _ Rc)|].
+      destruct Rc as [_ (x & y & r & X1 & X2 & (y1 & y2) & y3 & y4)].
+      rewrite Eb in X1. injection X1 as <- <-.
+      exists s0, y, rest0. split; [exact E0|]. split; [exact X2|].
+      split; [split; congruence|]. split; congruence.
+    - (* ICode *)
+      startT Hw Hi sz Hsz st1 ps R1. cbn [wf rn_info] in Hw.
+      apply (wrap_T (start_code d) (end_code d) cs st st1 ps st1); auto.
+      + apply start_code_tot. + apply end_code_tot. + apply R_refl, (Rg_inv _ _ _ R1).
+    - (* IImg *)
+      startT Hw Hi sz Hsz st1 ps R1.
+      eapply okp_bind; [apply (with_top_tot _ _ (add_image_tot d src title) (Rg_inv _ _ _ R1))|].
+      intros st2 R2. eapply fin_T; eassumption.
+    - (* IBlock *)
+      startT Hw Hi sz Hsz st1 ps R1. cbn [wf rn_info] in Hw.
+      apply (wrap_T start_block (fun s => Ok (end_block s)) cs st st1 ps st1); auto.
+      + apply start_block_tot. + apply end_block_tot. + apply R_refl, (Rg_inv _ _ _ R1).
+    - (* IHeader *)
+      startT Hw Hi sz Hsz st1 ps R1. cbn [wf rn_info] in Hw.
+      apply andb_true_iff in Hw. destruct Hw as [Hsm Hw].
+      unfold small in Hsm. rewrite Hsz in Hsm. apply N.ltb_lt in Hsm.
+      cbn [est_node rn_info] in Hsz. apply prefixed_est in Hsz. destruct Hsz as [Ep Hpm].
+      rewrite Ep, N.eqb_refl. cbn [negb].
+      pose proof (Rg_inv _ _ _ R1) as I1.
+      destruct (top_T st1 I1) as (tp & rest & Et & Es & Htp). rewrite Et. cbn [bind].
+      eapply okp_bind; [apply width_minus_T|]. intros w Hwd. cbv beta in Hwd.
+      assert (Hwlt : w < usize_max). { destruct Htp as (_ & _ & _ & B). lia. }
+      eapply (scope_T st1 tp w); [exact I1|exact Hwlt| |].
+      { apply (kids_T cs _ IH Hw). apply push_inv; assumption. }
+      intros sub st3 Hsub Hso R3. cbv beta iota.
+      eapply okp_bind; [apply (with_top_tot _ _ start_block_tot (Rg_inv _ _ _ R3))|]. intros st4 R4.
+      eapply okp_bind; [apply (with_top_tot _ _ (append_subrender_tot sub _ _ Hsub) (Rg_inv _ _ _ R4))|].
+      intros st5 R5.
+      eapply okp_bind; [apply (with_top_tot _ _ end_block_tot (Rg_inv _ _ _ R5))|]. intros st6 R6.
+      eapply fin_T; [exact R1|]. eapply R_trans; [exact R3|]. eapply R_trans; [exact R4|].
+      eapply R_trans; eassumption.
+    - (* IDiv *)
+      startT Hw Hi sz Hsz st1 ps R1. cbn [wf rn_info] in Hw.
+      apply (wrap_T new_line new_line cs st st1 ps st1); auto.
+      + apply new_line_tot. + apply new_line_tot. + apply R_refl, (Rg_inv _ _ _ R1).
+    - (* IBlockQuote *)
+      startT Hw Hi sz Hsz st1 ps R1. cbn [wf rn_info] in Hw.
+      apply andb_true_iff in Hw. destruct Hw as [Hsm Hw].
+      unfold small in Hsm. rewrite Hsz in Hsm. apply N.ltb_lt in Hsm.
+      cbn [est_node rn_info] in Hsz. apply prefixed_est in Hsz. destruct Hsz as [Ep Hpm].
+      rewrite Ep, N.eqb_refl. cbn [negb]. rewrite usub_ok by exact Hpm. cbn [bind].
+      pose proof (Rg_inv _ _ _ R1) as I1.
+      destruct (top_T st1 I1) as (tp & rest & Et & Es & Htp). rewrite Et. cbn [bind].
+      eapply okp_bind; [apply width_minus_T|]. intros w Hwd. cbv beta in Hwd.
+      assert (Hwlt : w < usize_max). { destruct Htp as (_ & _ & _ & B). lia. }
+      eapply (scope_T st1 tp w); [exact I1|exact Hwlt| |].
+      { apply (kids_T cs _ IH Hw). apply push_inv; assumption. }
+      intros sub st3 Hsub Hso R3. cbv beta iota.
+      eapply okp_bind; [apply (with_top_tot _ _ start_block_tot (Rg_inv _ _ _ R3))|]. intros st4 R4.
+      eapply okp_bind; [apply (with_top_tot _ _ (append_subrender_tot sub _ _ Hsub) (Rg_inv _ _ _ R4))|].
+      intros st5 R5.
+      eapply okp_bind; [apply (with_top_tot _ _ end_block_tot (Rg_inv _ _ _ R5))|]. intros st6 R6.
+      eapply fin_T; [exact R1|]. eapply R_trans; [exact R3|]. eapply R_trans; [exact R4|].
+      eapply R_trans; eassumption.
+    - (* IUl *)
+      startT Hw Hi sz Hsz st1 ps R1. cbn [wf rn_info] in Hw.
+      apply andb_true_iff in Hw. destruct Hw as [Hsm Hw].
+      unfold small in Hsm. rewrite Hsz in Hsm. apply N.ltb_lt in Hsm.
+      cbn [est_node rn_info] in Hsz. apply prefixed_est in Hsz. destruct Hsz as [Ep Hpm].
+      pose proof (Rg_inv _ _ _ R1) as I1.
+      eapply okp_bind; [eapply (okp_fold (R st1)); [|apply R_refl, I1]
+                       |intros st2 R2; eapply fin_T; eassumption].
+      intros item Hitem a Ra. cbv beta. pose proof (Rg_inv _ _ _ Ra) as Ia.
+      rewrite usub_ok by exact Hpm. cbn [bind].
+      destruct (top_T a Ia) as (tp & rest & Et & Es & Htp). rewrite Et. cbn [bind].
+      eapply okp_bind; [apply width_minus_T|]. intros w Hwd. cbv beta in Hwd.
+      assert (Hwlt : w < usize_max). { destruct Htp as (_ & _ & _ & B). lia. }
+      rewrite Forall_forall in IH. rewrite forallb_forall in Hw.
+      eapply (scope_T a tp w); [exact Ia|exact Hwlt| |].
+      { apply (IH item Hitem (Hw item Hitem)). apply push_inv; assumption. }
+      intros sub s3 Hsub Hso R3. cbv beta iota.
+      eapply okp_mono; [apply (with_top_tot _ _ (append_subrender_tot sub _ _ Hsub) (Rg_inv _ _ _ R3))|].
+      intros s4 R4. eapply R_trans; [exact Ra|]. eapply R_trans; eassumption.
+    - (* IOl *)
+      startT Hw Hi sz Hsz st1 ps R1. cbn [wf rn_info] in Hw.
+      apply andb_true_iff in Hw. destruct Hw as [Hsm Hw].
+      unfold small in Hsm. rewrite Hsz in Hsm. apply N.ltb_lt in Hsm.
+      cbn [est_node rn_info ol_prefix_size bind] in Hsz. apply prefixed_est in Hsz.
+      destruct Hsz as [Ep Hpm].
+      pose proof (Rg_inv _ _ _ R1) as I1.
+      eapply okp_bind; [eapply (okp_fold (fun si : rstate * Z => R st1 (fst si))); [|apply R_refl, I1]
+                       |intros r Rr; eapply fin_T; [exact R1|exact Rr]].
+      intros item Hitem [a i] Ra. cbv beta iota. cbn [fst] in Ra. pose proof (Rg_inv _ _ _ Ra) as Ia.
+      rewrite usub_ok by lia. cbn [bind].
+      destruct (top_T a Ia) as (tp & rest & Et & Es & Htp). rewrite Et. cbn [bind].
+      eapply okp_bind; [apply width_minus_T|]. intros w Hwd. cbv beta in Hwd.
+      assert (Hwlt : w < usize_max). { destruct Htp as (_ & _ & _ & B). lia. }
+      rewrite Forall_forall in IH. rewrite forallb_forall in Hw.
+      eapply (scope_T a tp w); [exact Ia|exact Hwlt| |].
+      { apply (IH item Hitem (Hw item Hitem)). apply push_inv; assumption. }
+      intros sub s3 Hsub Hso R3. cbv beta iota.
+      eapply okp_bind; [apply (with_top_tot _ _ (append_subrender_tot sub _ _ Hsub) (Rg_inv _ _ _ R3))|].
+      intros s4 R4. cbn [okp fst]. eapply R_trans; [exact Ra|]. eapply R_trans; eassumption.
+    - (* IDl *)
+      startT Hw Hi sz Hsz st1 ps R1. cbn [wf rn_info] in Hw.
+      eapply okp_bind; [apply (with_top_tot _ _ start_block_tot (Rg_inv _ _ _ R1))|]. intros st2 R2.
+      eapply okp_bind; [apply (kids_T cs st2 IH Hw (Rg_inv _ _ _ R2))|]. intros st3 R3.
+      eapply fin_T; [exact R1|]. eapply R_trans; eassumption.
+    - (* IDt *)
+      startT Hw Hi sz Hsz st1 ps R1. cbn [wf rn_info] in Hw.
+      eapply okp_bind; [apply (with_top_tot _ _ new_line_tot (Rg_inv _ _ _ R1))|]. intros st2 R2.
+      apply (wrap_T (start_emphasis d) (end_emphasis d) cs st st1 ps st2); auto.
+      + apply start_emphasis_tot. + apply end_emphasis_tot.
+    - (* IDd *)
+      startT Hw Hi sz Hsz st1 ps R1. cbn [wf rn_info] in Hw.
+      apply andb_true_iff in Hw. destruct Hw as [Hsm Hw].
+      unfold small in Hsm. rewrite Hsz in Hsm. apply N.ltb_lt in Hsm.
+      cbn [est_node rn_info] in Hsz. apply prefixed_est in Hsz. destruct Hsz as [Ep Hpm].
+      rewrite usub_ok by exact Hpm. cbn [bind].
+      pose proof (Rg_inv _ _ _ R1) as I1.
+      destruct (top_T st1 I1) as (tp & rest & Et & Es & Htp). rewrite Et. cbn [bind].
+      eapply okp_bind; [apply width_minus_T|]. intros w Hwd. cbv beta in Hwd.
+      assert (Hwlt : w < usize_max). { destruct Htp as (_ & _ & _ & B). lia. }
+      eapply (scope_T st1 tp w); [exact I1|exact Hwlt| |].
+      { apply (kids_T cs _ IH Hw). apply push_inv; assumption. }
+      intros sub st3 Hsub Hso R3. cbv beta iota.
+      eapply okp_bind; [apply (with_top_tot _ _ (append_subrender_tot sub _ _ Hsub) (Rg_inv _ _ _ R3))|].
+      intros st4 R4. eapply fin_T; [exact R1|]. eapply R_trans; eassumption.
+    - (* IBreak *)
+      startT Hw Hi sz Hsz st1 ps R1.
+      eapply okp_bind; [apply (with_top_tot _ _ new_line_hard_tot (Rg_inv _ _ _ R1))|]. intros st2 R2.
+      eapply fin_T; eassumption.
+    - (* ITable *)
+      startT Hw Hi sz Hsz st1 ps R1. rewrite wf_table in Hw. clear sz Hsz.
+      pose proof (Rg_inv _ _ _ R1) as I1.
+      apply Forall_flat_map in IH. rewrite Forall_forall in IH.
+      pose proof Hw as Hw'. rewrite forallb_forall in Hw'.
+      assert (Hcell : forall r c, In r rows -> In c (row_cells r) ->
+                sure (fun _ => True) (est_kids d mw (cell_content c)) /\ 1 <= cell_colspan c).
+      { intros r c Hr Hc. specialize (Hw' r Hr). destruct r as [cells rsty]. cbn [row_wf row_cells] in *.
+        apply andb_true_iff in Hw'. destruct Hw' as [_ Hw']. rewrite forallb_forall in Hw'.
+        specialize (Hw' c Hc). split.
+        - apply cell_est_sure; [|exact Hw']. apply Forall_forall. intros x _. apply est_ok_all.
+        - destruct c as [k content csty]. cbn [cell_wf cell_colspan] in *.
+          apply andb_true_iff in Hw'. lia. }
+      (* column size estimates *)
+      eapply okp_bind with (P := fun col_sizes => length col_sizes = N.to_nat ncols).
+      { apply sure_okp.
+        eapply (sure_fold (fun sizes => length sizes = N.to_nat ncols)); [|apply repeat_length].
+        intros r Hr s Hs. cbv beta.
+        eapply sure_bind with (P := fun r => length (fst r) = N.to_nat ncols); [|intros a Ha; exact Ha].
+        eapply (cells_fold_sure ncols); [|exact Hs|].
+        - intros c Hc sz colno Hl Hcol. cbv beta iota.
+          destruct (Hcell r c Hr Hc) as [Hce Hc1].
+          eapply sure_bind; [exact Hce|]. intros ce _. cbv zeta.
+          destruct (N.eqb_spec (cell_colspan c) 0) as [E0|_]; [lia|].
+          match goal with |- sure _ match upd_range _ _ _ ?f with _ => _ end =>
+            destruct (upd_range_some f sz (N.to_nat colno) (N.to_nat (cell_colspan c)))
+              as (r' & E & L); [lia|] end.
+          rewrite E. cbn [sure fst snd]. split; [congruence|reflexivity].
+        - specialize (Hw' r Hr). destruct r as [cells rsty]. cbn [row_wf row_cells] in *.
+          apply andb_true_iff in Hw'. lia. }
+      intros col_sizes Hlen. cbv zeta.
+      destruct (top_T st1 I1) as (tp & rest & Et & Es & Htp). rewrite Et. cbn [bind].
+      pose proof Htp as (_ & _ & _ & HB).
+      set (vr := o_raw (sopts tp)
+                 || ((swidth_ tp <? sumN (map e_min col_sizes) + (N.of_nat (length col_sizes) - 1))
+                     || (swidth_ tp =? 0))).
+      (* column widths *)
+      eapply okp_bind with
+        (P := fun cw => length cw = N.to_nat ncols /\
+                        (vr = false -> sumN cw + N.of_nat (length cw) <= swidth_ tp + 1) /\
+                        (vr = true -> forall w, In w cw -> w <= swidth_ tp)).
+      { destruct vr eqn:Evr; cbn [negb].
+        - cbn [okp]. split; [rewrite map_length; exact Hlen|]. split; [discriminate|].
+          intros _ w Hin. apply in_map_iff in Hin. destruct Hin as (? & <- & _). lia.
+        - set (ws0 := map (col_width_of (swidth_ tp) (sumN (map e_size col_sizes))) col_sizes).
+          assert (Hl0 : length ws0 = length col_sizes) by apply map_length.
+          destruct ws0 as [|x ws0'] eqn:Ews.
+          + cbn [okp]. cbn [length] in Hl0. split; [cbn [length]; congruence|].
+            split; [cbn; lia|discriminate].
+          + rewrite <- Ews in *.
+            apply orb_false_iff in Evr. destruct Evr as [_ Evr].
+            apply orb_false_iff in Evr. destruct Evr as [Evr _]. apply N.ltb_ge in Evr.
+            destruct (TableProof.shrink_loop_never_panics (swidth_ tp) (map e_min col_sizes) ws0)
+              as (ws_ & E & L & _ & _ & Hfit).
+            * rewrite map_length. congruence.
+            * rewrite Ews. discriminate.
+            * rewrite map_length. exact Evr.
+            * rewrite E. cbn [okp]. split; [congruence|]. split; [|discriminate]. intros _.
+              assert (1 <= N.of_nat (length ws_)).
+              { rewrite L, Ews. cbn [length]. lia. }
+              lia. }
+      intros cw (Hcwl & Hh & Hv).
+      (* start_block *)
+      eapply okp_bind.
+      { apply (with_top_Q (fun s s' => dsame s s' /\ wrapping s' = None) _ st1 I1).
+        intros s r _ Hs. eapply okp_mono; [apply start_block_t, Hs|]. intros s' (A & B & C). auto. }
+      intros st2 R2.
+      assert (R12 : R st1 st2) by (eapply Rg_weak; [|exact R2]; intros a b [A _]; exact A).
+      destruct R2 as [I2 (x & tp2 & r2 & X1 & Es2 & D2 & W2)].
+      rewrite Es in X1. injection X1 as <- <-.
+      (* top border *)
+      eapply okp_bind with
+        (P := fun st3 => R st1 st3 /\
+                (vr = false -> exists tp3 rest3, stack st3 = tp3 :: rest3 /\ TB (sumN cw <> 0) tp3)).
+      { match goal with |- okp _ (if ?c then _ else _) => destruct c eqn:Ec end.
+        - apply andb_true_iff in Ec. destruct Ec as [_ Eb].
+          eapply okp_mono.
+          { apply (with_top_Q (fun s s' => dsame s s' /\ wrapping s' = None /\ lastR s') _ st2 I2).
+            intros s r Es' Hs. rewrite Es2 in Es'. injection Es' as <- <-.
+            eapply okp_mono; [apply add_horizontal_border_width_t; [exact Hs|]|].
+            - rewrite (dsame_opts _ _ D2). exact Eb.
+            - intros s' (A & B & C & D). auto. }
+          intros st3 R3. split.
+          + eapply R_trans; [exact R12|]. eapply Rg_weak; [|exact R3]. intros a b [A _]. exact A.
+          + intros _. destruct R3 as [_ (a & b & r3 & A1 & A2 & A3 & A4 & A5)].
+            exists b, r3. split; [exact A2|]. split; [exact A4|]. intros _ _. exact A5.
+        - cbn [okp]. split; [exact R12|]. intros Evr. exists tp2, rest. split; [exact Es2|].
+          split; [exact W2|]. intros Hne Hb. exfalso.
+          rewrite (dsame_opts _ _ D2) in Hb. rewrite Hb, andb_true_r in Ec.
+          apply negb_false_iff in Ec. rewrite Evr in Ec. apply N.eqb_eq in Ec. lia. }
+      intros st3 [R3 T3].
+      (* rows *)
+      eapply okp_bind with
+        (P := fun a => R st1 a /\
+                (vr = false -> exists tp' rest', stack a = tp' :: rest' /\ TB (sumN cw <> 0) tp')).
+      { change (okp (fun a => R st1 a /\
+                  (vr = false -> exists tp' rest', stack a = tp' :: rest' /\ TB (sumN cw <> 0) tp'))
+                  (fold_left (fun acc r => do s <- acc; row_body d mw vr cw r s) rows (Ok st3))).
+        apply (okp_fold (fun a => R st1 a /\
+                 (vr = false -> exists tp' rest', stack a = tp' :: rest' /\ TB (sumN cw <> 0) tp'))
+                 (row_body d mw vr cw) rows); [|split; assumption].
+        intros r Hr a [Ra Ta].
+        pose proof Ra as [Ia (x & tpa & ra & X1 & Esa & Da)].
+        rewrite Es in X1. injection X1 as <- <-.
+        assert (Ewa : swidth_ tpa = swidth_ tp) by (destruct Da as ((A & _) & _); exact A).
+        eapply okp_mono.
+        { apply (row_body_T vr cw ncols r a tpa rest); try assumption.
+          - specialize (IH r Hr). unfold row_kids in IH. apply Forall_flat_map in IH. exact IH.
+          - apply Hw', Hr.
+          - rewrite Ewa. exact Hh.
+          - rewrite Ewa. exact Hv.
+          - intros Evr. destruct (Ta Evr) as (t' & r' & E' & T'). rewrite Esa in E'.
+            injection E' as <- <-. exact T'. }
+        intros a' [Ra' Ta']. split; [eapply R_trans; eassumption|exact Ta']. }
+      intros st4 [R4 _]. eapply fin_T; eassumption.
+    - (* IFragStart *)
+      startT Hw Hi sz Hsz st1 ps R1.
+      eapply okp_bind; [apply (with_top_tot _ _ (record_frag_start_tot name) (Rg_inv _ _ _ R1))|].
+      intros st2 R2. eapply fin_T; eassumption.
+    - (* IListItem *)
+      startT Hw Hi sz Hsz st1 ps R1. cbn [wf rn_info] in Hw.
+      apply (wrap_T start_block (fun s => Ok (end_block s)) cs st st1 ps st1); auto.
+      + apply start_block_tot. + apply end_block_tot. + apply R_refl, (Rg_inv _ _ _ R1).
+    - (* ISup *)
+      startT Hw Hi sz Hsz st1 ps R1. cbn [wf rn_info] in Hw.
+      destruct (sup_digits cs) as [digitstr|].
+      + eapply okp_bind; [apply inline_text_T, (Rg_inv _ _ _ R1)|]. intros st2 R2.
+        eapply fin_T; eassumption.
+      + apply (wrap_T (start_superscript d) (end_superscript d) cs st st1 ps st1); auto.
+        * apply start_superscript_tot. * apply end_superscript_tot. * apply R_refl, (Rg_inv _ _ _ R1).
+  Qed.
+
+  (* ================================================================ *)
+  (* 7. render_tree                                                    *)
+  (* ================================================================ *)
+
+  Lemma sub_new_t width o : width < usize_max -> sub_t (sub_new width o).
+  Proof.
+    intros Hw. unfold sub_t, sub_new. sprj. split; [intros r []|]. split; [intros _ r []|].
+    split; [intros ? [=]|exact Hw].
+  Qed.
+
+  Lemma render_tree_T o width tree :
+    width < usize_max -> wf tree = true -> okp sub_t (render_tree d mw o width tree).
+  Proof.
+    intros Hwd Hw. unfold render_tree, est_of.
+    destruct (est_total tree Hw) as [e He]. rewrite He. cbn [bind].
+    set (st0 := mkrst [sub_new width o] []).
+    assert (I0 : st_inv st0).
+    { split; cbn [st0 stack]; [discriminate|]. constructor; [apply sub_new_t, Hwd|constructor]. }
+    eapply okp_bind; [apply (node_t_all tree Hw st0 I0)|].
+    intros st [[_ HF] (s & s' & rest & E1 & E2 & _)].
+    cbn [st0 stack] in E1. injection E1 as <- <-. rewrite E2. rewrite E2 in HF.
+    pose proof (Forall_inv HF) as Hs'.
+    destruct (sub_finalise s' (links st)) as [|l ls].
+    - exact Hs'.
+    - eapply okp_bind; [apply start_block_tot, Hs'|]. intros s1 [A _]. cbn [okp].
+      apply fmt_links_t, A.
+  Qed.
+
+  Lemma sub_into_lines_okish s : sub_t s -> okish (sub_into_lines s).
+  Proof. intros Hs. eapply okp_okish, sub_into_lines_t, Hs. Qed.
+
+  Lemma sub_into_string_okish s : sub_t s -> okish (sub_into_string s).
+  Proof.
+    intros Hs. unfold sub_into_string, okish. eapply okp_bind; [apply sub_into_lines_t, Hs|].
+    intros ls _. exact I.
+  Qed.
+End RenderLayerT.
+
+(* ================================================================== *)
+(* 8. Main theorems, render-tree level                                  *)
+(* ================================================================== *)
+
+(* The decidable side condition (see [wf] in section 4):
+   tree_wf d min_wrap tree = true  iff
+   (a) no node of the tree is a bare table body / row / cell,
+   (b) in every table: every colspan >= 1, the colspans of each row sum to <= ncols,
+   (c) for every header / blockquote / ul / ol / dd node the estimated minimum width
+       (est_node) is < usize::MAX. *)
+Definition tree_wf (d : deco) (min_wrap : N) (tree : rnode) : bool := wf d min_wrap tree.
+
+(* C01 at the level of the renderer: for EVERY decorator (arbitrary strings, arbitrary
+   ordered-list prefix function), every option record, every width below usize::MAX
+   (0 included) and every well-formed render tree, `render_tree` returns Ok or TooNarrow,
+   and so do `sub_into_lines` / `sub_into_string` of its result. *)
+Theorem c01_render_tree_total :
+  forall (d : deco) (min_wrap : N) (o : ropts) (width : N) (tree : rnode),
+  width < usize_max ->
+  tree_wf d min_wrap tree = true ->
+  match render_tree d min_wrap o width tree with
+  | Ok s => okish (sub_into_lines s) /\ okish (sub_into_string s)
+  | TooNarrow => True
+  | Panic _ => False
+  | OutOfFuel => False
+  end.
+Proof.
+  intros d mw o width tree Hwd Hw.
+  pose proof (render_tree_T d mw o width tree Hwd Hw) as H.
+  destruct (render_tree d mw o width tree) as [s| | |]; cbn [okp] in H; auto.
+  split; [apply sub_into_lines_okish, H|apply sub_into_string_okish, H].
+Qed.
+Print Assumptions c01_render_tree_total.
+
+(* the same, spelled out as "never Panic, never OutOfFuel" *)
+Corollary c01_render_tree_never_panics :
+  forall d min_wrap o width tree,
+  width < usize_max -> tree_wf d min_wrap tree = true ->
+  (forall site, render_tree d min_wrap o width tree <> Panic site) /\
+  render_tree d min_wrap o width tree <> OutOfFuel /\
+  (forall s, render_tree d min_wrap o width tree = Ok s ->
+     (forall site, sub_into_lines s <> Panic site) /\ sub_into_lines s <> OutOfFuel /\
+     (forall site, sub_into_string s <> Panic site) /\ sub_into_string s <> OutOfFuel).
+Proof.
+  intros d mw o width tree Hwd Hw.
+  pose proof (c01_render_tree_total d mw o width tree Hwd Hw) as H.
+  destruct (render_tree d mw o width tree) as [s| | |]; try contradiction.
+  - split; [discriminate|]. split; [discriminate|]. intros s' [= <-]. destruct H as [H1 H2].
+    unfold okish in *.
+    destruct (sub_into_lines s), (sub_into_string s); cbn [okp] in *; try contradiction;
+      repeat split; discriminate.
+  - split; [discriminate|]. split; discriminate.
+Qed.
+Print Assumptions c01_render_tree_never_panics.
+
+(* RenderTree::render_with_context (Api.v): width 0 is answered TooNarrow *)
+Theorem c01_render_with_context_total :
+  forall (c : config) (tree : rnode) (width : N),
+  width < usize_max ->
+  tree_wf (c_deco c) (c_min_wrap c) tree = true ->
+  match render_with_context c tree width with
+  | Ok s => okish (sub_into_lines s) /\ okish (sub_into_string s)
+  | TooNarrow => True
+  | Panic _ => False
+  | OutOfFuel => False
+  end.
+Proof.
+  intros c tree width Hwd Hw. unfold render_with_context.
+  destruct (width =? 0); [exact I|]. apply c01_render_tree_total; assumption.
+Qed.
+Print Assumptions c01_render_with_context_total.
+
+(* ---- non-vacuity: the example tree of RenderWidth.v (headings, lists, quote, table, link) ---- *)
+Example ex_tree_wf : tree_wf plain_deco 3 ex_tree = true.
+Proof. vm_compute. reflexivity. Qed.
+
+Example ex_tree_total_applies :
+  match render_tree plain_deco 3 ex_opts 12 ex_tree with
+  | Ok s => okish (sub_into_lines s) /\ okish (sub_into_string s)
+  | TooNarrow => True | Panic _ => False | OutOfFuel => False
+  end.
+Proof. apply c01_render_tree_total; [vm_compute; reflexivity|exact ex_tree_wf]. Qed.
+
+(* both outcomes occur: Ok at width 12, TooNarrow at width 1 *)
+Example ex_tree_ok_12 :
+  match render_tree plain_deco 3 ex_opts 12 ex_tree with Ok _ => True | _ => False end.
+Proof. vm_compute. exact I. Qed.
+Example ex_tree_narrow_1 : render_tree plain_deco 3 ex_opts 1 ex_tree = TooNarrow.
+Proof. vm_compute. reflexivity. Qed.
+
+(* the side conditions are needed: a bare table cell is `unreachable!` (site 60), a colspan
+   that exceeds the declared number of columns indexes out of bounds (site 31), colspan 0
+   divides by zero (site 33) *)
+Example cex_bare_cell :
+  render_tree plain_deco 3 ex_opts 12 (ex_n (ITableCell (ex_cell [120]))) = Panic 60.
+Proof. vm_compute. reflexivity. Qed.
+Example cex_colspan_wide :
+  render_tree plain_deco 3 ex_opts 12
+    (ex_n (ITable [RRow [RCell 2 [ex_n (IText (ex_str [120]))] cstyle0] cstyle0] 1)) = Panic 31.
+Proof. vm_compute. reflexivity. Qed.
+Example cex_colspan_zero :
+  render_tree plain_deco 3 ex_opts 12
+    (ex_n (ITable [RRow [RCell 0 [ex_n (IText (ex_str [120]))] cstyle0] cstyle0] 1)) = Panic 33.
+Proof. vm_compute. reflexivity. Qed.
+
+(* ================================================================== *)
+(* 9. The public routes, given the render tree                          *)
+(* ================================================================== *)
+
+Section RoutesGivenTree.
+  Variable inline_styles : list (text * text) -> res (list styledecl).
+  Variable doc_rules : list node -> res (list ruleset).
+
+  (* Whenever the DOM layer delivers a well-formed tree, both routes return Ok or TooNarrow. *)
+  Theorem c01_routes_given_tree :
+    forall (c : config) (doc : list node) (w : N) (tree : rnode),
+    w < usize_max ->
+    to_render_tree inline_styles doc_rules c doc = Ok tree ->
+    tree_wf (c_deco c) (c_min_wrap c) tree = true ->
+    okish (lines_from_read inline_styles doc_rules c doc w) /\
+    okish (string_from_read inline_styles doc_rules c doc w).
+  Proof.
+    intros c doc w tree Hw Ht Hwf. unfold lines_from_read, string_from_read. rewrite Ht. cbn [bind].
+    pose proof (c01_render_with_context_total c tree w Hw Hwf) as H.
+    destruct (render_with_context c tree w) as [s| | |]; cbn [bind]; try contradiction;
+      try (split; exact I).
+    destruct H as [H1 H2]. split; [|exact H2].
+    unfold okish in *. destruct (sub_into_lines s); cbn [bind okp] in *; auto.
+  Qed.
+End RoutesGivenTree.
+Print Assumptions c01_routes_given_tree.
+
+(* ================================================================== *)
+(* 10. The DOM layer (Dom.v): table constructors                        *)
+(* ================================================================== *)
+
+(* strictly increasing lists (the sorted set of column positions) *)
+Fixpoint inc (l : list N) : Prop :=
+  match l with
+  | [] => True
+  | x :: l' => (forall y, In y l' -> x < y) /\ inc l'
+  end.
+
+Lemma insert_sorted_in x : forall l y, In y (insert_sorted x l) <-> y = x \/ In y l.
+Proof.
+  induction l as [|h l IH]; intros y; cbn [insert_sorted].
+  - cbn [In]. intuition.
+  - destruct (N.ltb_spec x h).
+    + cbn [In]. intuition.
+    + destruct (N.eqb_spec x h) as [->|Hne].
+      * cbn [In]. intuition.
+      * cbn [In]. rewrite IH. intuition.
+Qed.
+
+Lemma insert_sorted_inc x : forall l, inc l -> inc (insert_sorted x l).
+Proof.
+  induction l as [|h l IH]; intros Hl; cbn [insert_sorted].
+  - cbn. split; [intros y []|exact I].
+  - destruct Hl as [H1 H2]. destruct (N.ltb_spec x h) as [Hlt|Hge].
+    + cbn [inc]. split; [|split; assumption].
+      intros y [<-|Hy]; [exact Hlt|]. specialize (H1 y Hy). lia.
+    + destruct (N.eqb_spec x h) as [->|Hne]; [split; assumption|].
+      cbn [inc]. split; [|apply IH, H2].
+      intros y Hy. apply insert_sorted_in in Hy. destruct Hy as [->|Hy]; [lia|auto].
+Qed.
+
+Lemma sorted_set_gen : forall l acc,
+  inc acc ->
+  inc (fold_left (fun acc x => insert_sorted x acc) l acc) /\
+  forall y, In y (fold_left (fun acc x => insert_sorted x acc) l acc) <-> In y l \/ In y acc.
+Proof.
+  induction l as [|x l IH]; intros acc Ha; cbn [fold_left].
+  - split; [exact Ha|]. intros y. cbn [In]. intuition.
+  - destruct (IH (insert_sorted x acc) (insert_sorted_inc x acc Ha)) as [A B].
+    split; [exact A|]. intros y. rewrite B, insert_sorted_in. cbn [In]. intuition.
+Qed.
+
+Lemma sorted_set_ok l : inc (sorted_set l) /\ forall y, In y (sorted_set l) <-> In y l.
+Proof.
+  unfold sorted_set. destruct (sorted_set_gen l [] I) as [A B]. split; [exact A|].
+  intros y. rewrite B. cbn [In]. intuition.
+Qed.
+
+Lemma index_of_ge : forall l x i a, index_of x l i = Some a -> i <= a.
+Proof.
+  induction l as [|h l IH]; intros x i a H; cbn [index_of] in H; [discriminate|].
+  destruct (x =? h); [injection H as <-; lia|]. apply IH in H. lia.
+Qed.
+
+Lemma index_of_in : forall l x i, In x l -> exists a, index_of x l i = Some a.
+Proof.
+  induction l as [|h l IH]; intros x i H; [destruct H|]. cbn [index_of].
+  destruct (N.eqb_spec x h) as [->|Hne]; [eauto|].
+  destruct H as [->|H]; [congruence|]. apply IH, H.
+Qed.
+
+Lemma index_of_mono : forall l, inc l -> forall i x y a b,
+  In y l -> x < y -> index_of x l i = Some a -> index_of y l i = Some b -> a < b.
+Proof.
+  induction l as [|h l IH]; intros Hl i x y a b Hy Hxy Ha Hb; [destruct Hy|].
+  destruct Hl as [H1 H2]. cbn [index_of] in Ha, Hb.
+  destruct (N.eqb_spec x h) as [->|Hxh].
+  - injection Ha as <-. destruct (N.eqb_spec y h) as [->|Hyh]; [lia|].
+    apply index_of_ge in Hb. lia.
+  - destruct (N.eqb_spec y h) as [->|Hyh].
+    + (* x is further down the list, so h < x < y = h *)
+      exfalso. assert (Hx : In x l).
+      { clear - Ha. revert Ha. generalize (i + 1). induction l as [|k l IHl]; intros j Ha;
+          cbn [index_of] in Ha; [discriminate|].
+        destruct (N.eqb_spec x k) as [->|]; [left; reflexivity|right; eapply IHl, Ha]. }
+      specialize (H1 x Hx). lia.
+    + destruct Hy as [->|Hy]; [congruence|]. eapply (IH H2 (i + 1) x y); eassumption.
+Qed.
+
+Lemma index_of_zero l : inc l -> In 0 l -> index_of 0 l 0 = Some 0.
+Proof.
+  intros Hl Hin. destruct l as [|h l]; [destruct Hin|]. destruct Hl as [H1 _]. cbn [index_of].
+  destruct (N.eqb_spec 0 h) as [_|Hne]; [reflexivity|].
+  destruct Hin as [->|Hin]; [congruence|]. specialize (H1 0 Hin). lia.
+Qed.
+
+Lemma sumN_colspan_le M : forall cells,
+  Forall (fun c => cell_colspan c <= M) cells ->
+  sumN (map cell_colspan cells) <= N.of_nat (length cells) * M.
+Proof.
+  induction cells as [|c cells IH]; intros H; cbn [map sumN length]; [lia|].
+  inversion H; subst. specialize (IH H3). rewrite Nat2N.inj_succ, N.mul_succ_l. lia.
+Qed.
+
+Definition cellC (c : rcell) (P : list rnode -> Prop) : Prop := P (cell_content c).
+
+(* ---- row_count / tbody_rows ---- *)
+Lemma row_count_ok : forall cells hz n,
+  Forall (fun c => cell_colspan c <= 1000) cells ->
+  n + N.of_nat (length cells) * 1000 <= usize_max ->
+  exists hz' n', row_count cells hz n = Ok (hz', n') /\
+                 n' <= n + N.of_nat (length cells) * 1000 /\
+                 (hz' = false -> Forall (fun c => 1 <= cell_colspan c) cells).
+Proof.
+  induction cells as [|c cells IH]; intros hz n Hc Hn; cbn [row_count].
+  - exists hz, n. split; [reflexivity|]. split; [cbn [length]; lia|]. constructor.
+  - inversion Hc as [|? ? Hc1 Hc2]; subst. cbn [length] in Hn.
+    rewrite Nat2N.inj_succ, N.mul_succ_l in Hn.
+    unfold uadd. destruct (N.leb_spec (n + N.max (cell_colspan c) 1) usize_max); [|lia].
+    cbn [bind].
+    destruct (IH (hz || (cell_colspan c =? 0)) (n + N.max (cell_colspan c) 1) Hc2) as (hz' & n' & E & Hn' & Hz);
+      [lia|].
+    exists hz', n'. split; [exact E|]. split.
+    + cbn [length]. rewrite Nat2N.inj_succ, N.mul_succ_l. lia.
+    + intros ->. specialize (Hz eq_refl). constructor; [|exact Hz].
+      (* hz' = false means no zero was seen *)
+      assert (Hmono : forall cells hz n hz' n', row_count cells hz n = Ok (hz', n') -> hz' = false -> hz = false).
+      { clear. induction cells as [|c cells IH]; intros hz n hz' n' H Hf; cbn [row_count] in H.
+        - injection H as <- _. exact Hf.
+        - bind_inv H n1 H1. apply IH in H; [|exact Hf]. apply orb_false_iff in H. tauto. }
+      apply Hmono in E; [|reflexivity]. apply orb_false_iff in E. destruct E as [_ E].
+      apply N.eqb_neq in E. lia.
+Qed.
+
+Definition clean_cell (P : rnode -> bool) (c : rcell) : Prop := forallb P (cell_content c) = true.
+
+(* a row as <tr> builds it / as <tbody> leaves it, for a fan-out bound B *)
+Definition rowA (P : rnode -> bool) (B : N) (r : rrow) : Prop :=
+  N.of_nat (length (row_cells r)) <= B /\
+  Forall (fun c => cell_colspan c <= 1000 /\ clean_cell P c) (row_cells r).
+Definition rowB (P : rnode -> bool) (B : N) (r : rrow) : Prop :=
+  N.of_nat (length (row_cells r)) <= B /\
+  Forall (fun c => 1 <= cell_colspan c <= 1000 * B + 1 /\ clean_cell P c) (row_cells r).
+
+Lemma rows_counts_ok P B : forall rows,
+  B * 1000 <= usize_max -> Forall (rowA P B) rows ->
+  exists counts, rows_counts rows = Ok counts /\
+    Forall2 (fun r cnt => snd cnt <= B * 1000 /\
+                          (fst cnt = false -> Forall (fun c => 1 <= cell_colspan c) (row_cells r)))
+            rows counts.
+Proof.
+  intros rows HB. induction rows as [|r rows IH]; intros H; cbn [rows_counts].
+  - exists []. split; [reflexivity|constructor].
+  - inversion H as [|? ? [Hl Hc] Hr]; subst.
+    assert (Hb : N.of_nat (length (row_cells r)) * 1000 <= B * 1000) by (apply N.mul_le_mono_r; exact Hl).
+    destruct (row_count_ok (row_cells r) false 0) as (hz & n & E & Hn & Hz).
+    { eapply Forall_impl; [|exact Hc]. intros c [A _]. exact A. }
+    { lia. }
+    rewrite E. cbn [bind]. destruct (IH Hr) as (counts & E2 & F2). rewrite E2. cbn [bind].
+    exists ((hz, n) :: counts). split; [reflexivity|]. constructor; [|exact F2].
+    cbn [fst snd]. split; [lia|exact Hz].
+Qed.
+
+Lemma maxN_le l M : Forall (fun x => x <= M) l -> maxN l <= M.
+Proof. induction 1; cbn [maxN]; lia. Qed.
+
+Lemma maxN_ge l x : In x l -> x <= maxN l.
+Proof.
+  induction l as [|h l IH]; intros H; [destruct H|]. cbn [maxN].
+  destruct H as [->|H]; [lia|]. specialize (IH H). lia.
+Qed.
+
+Lemma tbody_rows_ok P B rows :
+  B * 1000 <= usize_max -> Forall (rowA P B) rows ->
+  exists rows', tbody_rows rows = Ok rows' /\ Forall (rowB P B) rows'.
+Proof.
+  intros HB H. unfold tbody_rows.
+  destruct (rows_counts_ok P B rows HB H) as (counts & E & F). rewrite E. cbn [bind].
+  eexists. split; [reflexivity|].
+  set (maxc := match counts with [] => 1 | _ :: _ => maxN (map snd counts) end).
+  assert (Hmax : maxc <= B * 1000 \/ counts = []).
+  { unfold maxc. destruct counts as [|c0 counts']; [right; reflexivity|left].
+    apply maxN_le. apply Forall_forall. intros x Hx. apply in_map_iff in Hx.
+    destruct Hx as (cnt & <- & Hcnt).
+    clear - F Hcnt. induction F as [|r c rows cs [A _] _ IH]; [destruct Hcnt|].
+    destruct Hcnt as [->|Hc]; [exact A|apply IH, Hc]. }
+  clearbody maxc. clear E.
+  induction F as [|r cnt rows counts [A1 A2] F IH]; cbn [map2]; [constructor|].
+  inversion H as [|? ? [Hl Hc] Hr]; subst.
+  assert (Hmax' : maxc <= B * 1000) by (destruct Hmax as [?|?]; [assumption|discriminate]).
+  constructor.
+  - unfold fix_zero_colspan. destruct (fst cnt) eqn:Ef.
+    + destruct r as [cells s]. cbn [row_cells] in *. unfold rowB. cbn [row_cells].
+      split; [rewrite map_length; exact Hl|].
+      apply Forall_forall. intros c' Hc'. apply in_map_iff in Hc'. destruct Hc' as (c & <- & Hin).
+      rewrite Forall_forall in Hc. destruct (Hc c Hin) as [C1 C2].
+      assert (HB1 : 1 <= B). { destruct cells; [destruct Hin|cbn [length] in Hl; lia]. }
+      destruct c as [n k st]. cbn [cell_colspan] in C1. unfold clean_cell in *. cbn [cell_content] in C2.
+      destruct (N.eqb_spec n 0) as [->|Hn]; cbn [cell_colspan cell_content].
+      * split; [lia|exact C2].
+      * split; [lia|exact C2].
+    + split; [exact Hl|]. specialize (A2 eq_refl).
+      assert (HB1 : row_cells r <> [] -> 1 <= B).
+      { destruct (row_cells r); [congruence|cbn [length] in Hl; lia]. }
+      clear - Hc A2 HB1. induction Hc as [|c cells [C1 C2] _ IHc]; [constructor|].
+      inversion A2; subst. constructor.
+      * specialize (HB1 ltac:(discriminate)). split; [lia|exact C2].
+      * apply IHc; [assumption|]. intros _. apply HB1. discriminate.
+  - apply IH; [exact Hr|]. destruct Hmax as [Hm|Hm]; [left; exact Hm|discriminate].
+Qed.
+
+(* ---- RenderTable::new ---- *)
+Lemma row_positions_ok : forall cells col,
+  col + sumN (map cell_colspan cells) <= usize_max ->
+  exists l, row_positions cells col = Ok l.
+Proof.
+  induction cells as [|c cells IH]; intros col H; cbn [row_positions]; [eauto|].
+  cbn [map sumN] in H. unfold uadd.
+  destruct (N.leb_spec (col + cell_colspan c) usize_max); [|lia]. cbn [bind].
+  destruct (IH (col + cell_colspan c)) as [l E]; [lia|]. rewrite E. cbn [bind]. eauto.
+Qed.
+
+Lemma all_positions_ok : forall rows,
+  Forall (fun r => sumN (map cell_colspan (row_cells r)) <= usize_max) rows ->
+  exists ps, all_positions rows = Ok ps /\
+    forall r, In r rows -> exists l, row_positions (row_cells r) 0 = Ok l /\
+                                     forall x, In x l -> In x ps.
+Proof.
+  induction rows as [|r rows IH]; intros H; cbn [all_positions].
+  - exists []. split; [reflexivity|]. intros r [].
+  - inversion H as [|? ? H1 H2]; subst.
+    destruct (row_positions_ok (row_cells r) 0) as [l E]; [lia|]. rewrite E. cbn [bind].
+    destruct (IH H2) as (ps & E2 & F). rewrite E2. cbn [bind].
+    exists (l ++ ps). split; [reflexivity|]. intros r' [<-|Hr'].
+    + exists l. split; [exact E|]. intros x Hx. apply in_or_app. left. exact Hx.
+    + destruct (F r' Hr') as (l' & El' & Hl'). exists l'. split; [exact El'|].
+      intros x Hx. apply in_or_app. right. apply Hl', Hx.
+Qed.
+
+Definition cell_good (P : rnode -> bool) (c : rcell) : Prop :=
+  1 <= cell_colspan c /\ clean_cell P c.
+
+Lemma remap_cells_ok P set : inc set -> forall cells pos mapped l,
+  row_positions cells pos = Ok l -> (forall x, In x l -> In x set) ->
+  index_of pos set 0 = Some mapped ->
+  Forall (cell_good P) cells ->
+  exists cells', remap_cells set cells pos mapped = Ok cells' /\ Forall (cell_good P) cells'.
+Proof.
+  intros Hset. induction cells as [|c cells IH]; intros pos mapped l Hrp Hl Hidx Hc;
+    cbn [remap_cells].
+  - exists []. split; [reflexivity|constructor].
+  - inversion Hc as [|? ? [Hc1 Hc2] Hc3]; subst. destruct c as [n k s].
+    cbn [cell_colspan] in Hc1. unfold clean_cell in Hc2. cbn [cell_content] in Hc2.
+    cbn [row_positions cell_colspan] in Hrp. bind_inv Hrp col' Hcol. bind_inv Hrp r' Hr'.
+    ok_inv Hrp. replace (N.max n 1) with n by lia. rewrite Hcol. cbn [bind].
+    assert (Ecol : col' = pos + n).
+    { unfold uadd in Hcol. destruct (pos + n <=? usize_max); [|discriminate]. ok_inv Hcol. reflexivity. }
+    assert (Hin : In col' set) by (apply Hl; left; reflexivity).
+    destruct (index_of_in set col' 0 Hin) as [nm Enm]. rewrite Enm.
+    assert (Hlt : mapped < nm).
+    { eapply (index_of_mono set Hset 0 pos col'); try eassumption. lia. }
+    rewrite usub_ok by lia. cbn [bind].
+    destruct (IH col' nm r' Hr') as (cells' & E & F); [|exact Enm|exact Hc3|].
+    { intros x Hx. apply Hl. right. exact Hx. }
+    rewrite E. cbn [bind]. eexists. split; [reflexivity|]. constructor; [|exact F].
+    split; [cbn [cell_colspan]; lia|exact Hc2].
+Qed.
+
+Lemma remap_rows_ok P set ps : inc set -> In 0 set -> (forall x, In x ps -> In x set) ->
+  forall rows,
+  (forall r, In r rows -> exists l, row_positions (row_cells r) 0 = Ok l /\
+                                    forall x, In x l -> In x ps) ->
+  Forall (fun r => Forall (cell_good P) (row_cells r)) rows ->
+  exists rows', remap_rows set rows = Ok rows' /\
+                Forall (fun r => Forall (cell_good P) (row_cells r)) rows'.
+Proof.
+  intros Hset H0 Hps. induction rows as [|[cells s] rows IH]; intros Hpos Hc; cbn [remap_rows].
+  - exists []. split; [reflexivity|constructor].
+  - inversion Hc as [|? ? Hc1 Hc2]; subst. cbn [row_cells] in Hc1.
+    destruct (Hpos (RRow cells s) (or_introl eq_refl)) as (l & El & Hl). cbn [row_cells] in El.
+    destruct (remap_cells_ok P set Hset cells 0 0 l El) as (cells' & E & F);
+      [intros x Hx; apply Hps, Hl, Hx|apply index_of_zero; assumption|exact Hc1|].
+    rewrite E. cbn [bind].
+    destruct IH as (rows' & E2 & F2); [intros r Hr; apply Hpos; right; exact Hr|exact Hc2|].
+    rewrite E2. cbn [bind]. eexists. split; [reflexivity|]. constructor; [exact F|exact F2].
+Qed.
+
+Lemma num_cells_span cells :
+  Forall (fun c => 1 <= cell_colspan c) cells ->
+  sumN (map (fun c => N.max (cell_colspan c) 1) cells) = sumN (map cell_colspan cells).
+Proof.
+  induction 1 as [|c cells Hc _ IH]; cbn [map sumN]; [reflexivity|]. rewrite IH. lia.
+Qed.
+
+Lemma render_table_new_ok P B rows :
+  B * (1000 * B + 1) <= usize_max -> Forall (rowB P B) rows ->
+  exists rows' nc, render_table_new rows = Ok (ITable rows' nc) /\
+    Forall (fun r => row_span (row_cells r) <= nc /\ Forall (cell_good P) (row_cells r)) rows'.
+Proof.
+  intros HB H. unfold render_table_new.
+  destruct (all_positions_ok rows) as (ps & E & Hps).
+  { eapply Forall_impl; [|exact H]. intros r [Hl Hc].
+    pose proof (sumN_colspan_le (1000 * B + 1) (row_cells r)) as Hs.
+    assert (N.of_nat (length (row_cells r)) * (1000 * B + 1) <= B * (1000 * B + 1))
+      by (apply N.mul_le_mono_r; exact Hl).
+    assert (sumN (map cell_colspan (row_cells r)) <= N.of_nat (length (row_cells r)) * (1000 * B + 1)).
+    { apply Hs. eapply Forall_impl; [|exact Hc]. intros c [[_ A] _]. exact A. }
+    lia. }
+  rewrite E. cbn [bind].
+  destruct (sorted_set_ok (0 :: ps)) as [Hinc Hin].
+  destruct (remap_rows_ok P (sorted_set (0 :: ps)) ps Hinc) with (rows := rows) as (rows' & E2 & F).
+  - apply Hin. left. reflexivity.
+  - intros x Hx. apply Hin. right. exact Hx.
+  - exact Hps.
+  - eapply Forall_impl; [|exact H]. intros r [_ Hc].
+    eapply Forall_impl; [|exact Hc]. intros c [[A _] C]. split; assumption.
+  - rewrite E2. cbn [bind]. eexists _, _. split; [reflexivity|].
+    apply Forall_forall. intros r Hr. rewrite Forall_forall in F. specialize (F r Hr).
+    split; [|exact F].
+    assert (Hn : row_num_cells r = row_span (row_cells r)).
+    { unfold row_num_cells, row_span. apply num_cells_span.
+      eapply Forall_impl; [|exact F]. intros c [A _]. exact A. }
+    rewrite <- Hn. apply maxN_ge. apply in_map, Hr.
+Qed.
+
+(* ================================================================== *)
+(* 11. The DOM layer: process / build_element                           *)
+(* ================================================================== *)
+
+(* the structural part of [wf] (everything but the estimate bound [small]) *)
+Fixpoint wfs (n : rnode) {struct n} : bool :=
+  match rn_info n with
+  | IText _ | IImg _ _ | IBreak | IFragStart _ => true
+  | IContainer cs | ILink _ cs | IEm cs | IStrong cs | IStrikeout cs | ICode cs | IBlock cs
+  | IListItem cs | IDiv cs | IDl cs | IDt cs | ISup cs
+  | IHeader _ cs | IBlockQuote cs | IUl cs | IOl _ cs | IDd cs => forallb wfs cs
+  | ITable rows ncols =>
+    forallb (fun r => match r with
+                      | RRow cells _ =>
+                        (sumN (map cell_colspan cells) <=? ncols) &&
+                        forallb (fun c => match c with
+                                          | RCell k content _ => (1 <=? k) && forallb wfs content
+                                          end) cells
+                      end) rows
+  | ITableBody _ | ITableRow _ | ITableCell _ => false
+  end.
+
+Definition cell_wfs (c : rcell) : bool :=
+  match c with RCell k content _ => (1 <=? k) && forallb wfs content end.
+Definition row_wfs (ncols : N) (r : rrow) : bool :=
+  match r with RRow cells _ => (row_span cells <=? ncols) && forallb cell_wfs cells end.
+
+Lemma wfs_table rows ncols sty : wfs (RN (ITable rows ncols) sty) = forallb (row_wfs ncols) rows.
+Proof. reflexivity. Qed.
+
+Lemma cell_wfs_good c : cell_wfs c = true <-> cell_good wfs c.
+Proof.
+  destruct c as [k content s]. unfold cell_good, clean_cell. cbn [cell_wfs cell_colspan cell_content].
+  rewrite andb_true_iff, N.leb_le. tauto.
+Qed.
+
+Lemma wfs_table_intro rows nc sty :
+  Forall (fun r => row_span (row_cells r) <= nc /\ Forall (cell_good wfs) (row_cells r)) rows ->
+  wfs (RN (ITable rows nc) sty) = true.
+Proof.
+  intros H. rewrite wfs_table. apply forallb_forall. intros r Hr. rewrite Forall_forall in H.
+  destruct (H r Hr) as [A B]. destruct r as [cells s]. cbn [row_wfs row_cells] in *.
+  apply andb_true_iff. split; [apply N.leb_le, A|]. apply forallb_forall. intros c Hc.
+  apply cell_wfs_good. rewrite Forall_forall in B. apply B, Hc.
+Qed.
+
+(* what a processed child may be, for a fan-out bound B *)
+Definition res_ok (B : N) (x : rnode) : Prop :=
+  match rn_info x with
+  | ITableCell c => cell_colspan c <= 1000 /\ clean_cell wfs c
+  | ITableRow r => rowA wfs B r
+  | ITableBody rows => Forall (rowB wfs B) rows
+  | _ => True
+  end.
+Definition kid_ok (B : N) (strict : bool) (x : rnode) : Prop :=
+  res_ok B x /\ (strict = true -> wfs x = true).
+
+Lemma forallb_ins {A} (f : A -> bool) at_start x l :
+  f x = true -> forallb f l = true -> forallb f (ins at_start x l) = true.
+Proof.
+  intros Hx Hl. unfold ins. destruct at_start; cbn [forallb].
+  - rewrite Hx, Hl. reflexivity.
+  - rewrite forallb_app, Hl. cbn [forallb]. rewrite Hx. reflexivity.
+Qed.
+
+Lemma ins_first_cell_props at_start x cells :
+  wfs x = true ->
+  length (ins_first_cell at_start x cells) = length cells /\
+  map cell_colspan (ins_first_cell at_start x cells) = map cell_colspan cells /\
+  (forall Q : rcell -> Prop,
+     (forall n k s, Q (RCell n k s) -> forallb wfs k = true ->
+                    Q (RCell n (ins at_start x k) s)) ->
+     Forall (fun c => Q c /\ clean_cell wfs c) cells ->
+     Forall (fun c => Q c /\ clean_cell wfs c) (ins_first_cell at_start x cells)).
+Proof.
+  intros Hx. destruct cells as [|[n k s] cells]; cbn [ins_first_cell].
+  - split; [reflexivity|]. split; [reflexivity|]. auto.
+  - split; [reflexivity|]. split; [reflexivity|]. intros Q HQ H.
+    inversion H as [|? ? [H1 H2] H3]; subst. constructor; [|exact H3].
+    unfold clean_cell in *. cbn [cell_content] in *. split; [apply HQ; assumption|].
+    apply forallb_ins; assumption.
+Qed.
+
+Lemma wfs_container2 a b : wfs (rn_new (IContainer [a; b])) = wfs a && (wfs b && true).
+Proof. reflexivity. Qed.
+
+Lemma insert_child_ok B new orig at_start strict :
+  wfs new = true -> kid_ok B strict orig -> kid_ok B strict (insert_child new orig at_start).
+Proof.
+  intros Hn [Hr Hs]. destruct orig as [info st].
+  assert (Hdef : kid_ok B strict (if at_start then rn_new (IContainer [new; RN info st])
+                                  else rn_new (IContainer [RN info st; new])) \/ strict = true /\ wfs (RN info st) = false).
+  { destruct strict.
+    - destruct (wfs (RN info st)) eqn:E; [|right; auto]. left. split; [destruct at_start; exact I|].
+      intros _. destruct at_start; rewrite wfs_container2, Hn, E; reflexivity.
+    - left. split; [destruct at_start; exact I|discriminate]. }
+  assert (Hlist : forall (K : list rnode -> rinfo) v,
+            (forall l, wfs (RN (K l) st) = forallb wfs l) -> (forall l, res_ok B (RN (K l) st)) ->
+            info = K v -> kid_ok B strict (RN (K (ins at_start new v)) st)).
+  { intros K v HK HR ->. split; [apply HR|]. intros E. specialize (Hs E). rewrite HK in *.
+    apply forallb_ins; assumption. }
+  destruct info; cbn [insert_child];
+    try (destruct Hdef as [Hdef|[E1 E2]]; [exact Hdef|rewrite (Hs E1) in E2; discriminate]);
+    try (match goal with |- kid_ok _ _ (RN (?K (ins _ _ ?v)) _) =>
+           apply (Hlist K v); [intros l; reflexivity|intros l; exact I|reflexivity] end).
+  - (* ITable *)
+    split; [exact I|]. intros E. specialize (Hs E). rewrite wfs_table in *.
+    destruct rows as [|[cells s] rows]; [exact Hs|]. cbn [ins_first_row forallb] in *.
+    apply andb_true_iff in Hs. destruct Hs as [Hs1 Hs2]. rewrite Hs2, andb_true_r.
+    cbn [row_wfs] in *. apply andb_true_iff in Hs1. destruct Hs1 as [A1 A2].
+    destruct (ins_first_cell_props at_start new cells Hn) as (L & M & F).
+    apply andb_true_iff. split; [unfold row_span in *; rewrite M; exact A1|].
+    apply forallb_forall. intros c Hc. apply cell_wfs_good.
+    assert (G : Forall (fun c => 1 <= cell_colspan c /\ clean_cell wfs c)
+                       (ins_first_cell at_start new cells)).
+    { apply (F (fun c => 1 <= cell_colspan c)); [intros; assumption|].
+      apply Forall_forall. intros c' Hc'. rewrite forallb_forall in A2.
+      apply cell_wfs_good, A2, Hc'. }
+    rewrite Forall_forall in G. apply G, Hc.
+  - (* ITableBody *)
+    split; [|intros E; specialize (Hs E); discriminate].
+    cbn [res_ok rn_info] in *. destruct rows as [|[cells s] rows]; [exact Hr|].
+    cbn [ins_first_row]. inversion Hr as [|? ? [R1 R2] R3]; subst. constructor; [|exact R3].
+    cbn [row_cells] in *. destruct (ins_first_cell_props at_start new cells Hn) as (L & M & F).
+    unfold rowB. cbn [row_cells]. split; [rewrite L; exact R1|].
+    apply (F (fun c => 1 <= cell_colspan c <= 1000 * B + 1)); [intros; assumption|exact R2].
+  - (* ITableRow *)
+    split; [|intros E; specialize (Hs E); discriminate].
+    cbn [res_ok rn_info] in *. destruct r as [cells s]. destruct Hr as [R1 R2]. cbn [row_cells] in *.
+    destruct (ins_first_cell_props at_start new cells Hn) as (L & M & F).
+    cbn [res_ok rn_info]. unfold rowA. cbn [row_cells]. split; [rewrite L; exact R1|].
+    apply (F (fun c => cell_colspan c <= 1000)); [intros; assumption|exact R2].
+  - (* ITableCell *)
+    split; [|intros E; specialize (Hs E); discriminate].
+    cbn [res_ok rn_info] in *. destruct c as [n k s]. destruct Hr as [R1 R2].
+    unfold clean_cell in *. cbn [cell_colspan cell_content] in *. split; [exact R1|].
+    apply forallb_ins; assumption.
+Qed.
+
+Lemma wrap_pseudo_ok B computed nd strict :
+  kid_ok B strict nd -> kid_ok B strict (wrap_pseudo computed nd).
+Proof.
+  intros H. unfold wrap_pseudo.
+  assert (H1 : kid_ok B strict
+                 match cs_before computed with
+                 | Some c => match ws_val (c_content c) with
+                             | Some t => insert_child (rn_new (IText (relabel L_deco t))) nd true
+                             | None => nd
+                             end
+                 | None => nd
+                 end).
+  { destruct (cs_before computed) as [c|]; [|exact H].
+    destruct (ws_val (c_content c)); [|exact H]. apply insert_child_ok; [reflexivity|exact H]. }
+  destruct (cs_after computed) as [c|]; [|exact H1].
+  destruct (ws_val (c_content c)); [|exact H1]. apply insert_child_ok; [reflexivity|exact H1].
+Qed.
+
+(* ---- the element kinds that matter for table nesting; mirrors the if-chain of build_element ---- *)
+Inductive tk := TOther | TTable | TSection | TRow | TCell.
+
+Definition ekind (name : text) : tk :=
+  if names [[104;116;109;108]; [98;111;100;121]] name then TOther
+  else if names [[108;105;110;107]; [109;101;116;97]; [104;114]; [115;99;114;105;112;116];
+                 [115;116;121;108;101]; [104;101;97;100]] name then TOther
+  else if names [[115;112;97;110]] name then TOther
+  else if names [[97]] name then TOther
+  else if names [[101;109]; [105]; [105;110;115]] name then TOther
+  else if names [[115;116;114;111;110;103]] name then TOther
+  else if names [[115]; [100;101;108]] name then TOther
+  else if names [[99;111;100;101]] name then TOther
+  else if names [[105;109;103]] name then TOther
+  else match heading_level name with
+  | Some _ => TOther
+  | None =>
+  if names [[112]] name then TOther
+  else if names [[108;105]] name then TOther
+  else if names [[115;117;112]] name then TOther
+  else if names [[100;105;118]] name then TOther
+  else if names [[112;114;101]] name then TOther
+  else if names [[98;114]] name then TOther
+  else if names [[116;97;98;108;101]] name then TTable
+  else if names [[116;104;101;97;100]; [116;98;111;100;121]] name then TSection
+  else if names [[116;114]] name then TRow
+  else if names [[116;104]; [116;100]] name then TCell
+  else TOther
+  end.
+
+Definition kid_strict (strict : bool) (k : tk) : bool :=
+  match k with TOther => strict | TCell => true | _ => false end.
+Definition allowed (strict : bool) (k : tk) : bool :=
+  match k with TOther | TTable => true | _ => negb strict end.
+
+Lemma kids_wfs B strict cs : Forall (kid_ok B strict) cs -> strict = true -> forallb wfs cs = true.
+Proof.
+  intros H E. apply forallb_forall. intros x Hx. rewrite Forall_forall in H.
+  destruct (H x Hx) as [_ A]. apply A, E.
+Qed.
+
+Lemma forallb_filter {A} (g f : A -> bool) l : forallb g l = true -> forallb g (filter f l) = true.
+Proof.
+  intros H. apply forallb_forall. intros x Hx. apply filter_In in Hx.
+  rewrite forallb_forall in H. apply H, Hx.
+Qed.
+
+Lemma bodies_rows B strict cs :
+  Forall (kid_ok B strict) cs ->
+  Forall (rowB wfs B) (flat_map (fun n => match rn_info n with ITableBody b => b | _ => [] end) cs).
+Proof.
+  induction 1 as [|x cs [Hx _] _ IH]; cbn [flat_map]; [constructor|].
+  apply Forall_app. split; [|exact IH]. unfold res_ok in Hx.
+  destruct (rn_info x); try constructor. exact Hx.
+Qed.
+
+Lemma rows_of B strict cs :
+  Forall (kid_ok B strict) cs ->
+  Forall (rowA wfs B) (flat_map (fun n => match rn_info n with ITableRow r => [r] | _ => [] end) cs).
+Proof.
+  induction 1 as [|x cs [Hx _] _ IH]; cbn [flat_map]; [constructor|].
+  apply Forall_app. split; [|exact IH]. unfold res_ok in Hx.
+  destruct (rn_info x); try constructor; [exact Hx|constructor].
+Qed.
+
+Lemma cells_of B strict cs :
+  Forall (kid_ok B strict) cs ->
+  Forall (fun c => cell_colspan c <= 1000 /\ clean_cell wfs c)
+         (flat_map (fun n => match rn_info n with ITableCell c => [c] | _ => [] end) cs) /\
+  (length (flat_map (fun n => match rn_info n with ITableCell c => [c] | _ => [] end) cs)
+   <= length cs)%nat.
+Proof.
+  induction 1 as [|x cs [Hx _] _ [IH1 IH2]]; cbn [flat_map]; [split; [constructor|apply le_n]|].
+  rewrite app_length. unfold res_ok in Hx. split.
+  - apply Forall_app. split; [|exact IH1]. destruct (rn_info x); try constructor; [exact Hx|constructor].
+  - cbn [length]. destruct (rn_info x); cbn [length]; lia.
+Qed.
+
+Lemma td_colspan_le attrs : td_colspan attrs <= 1000.
+Proof.
+  unfold td_colspan.
+  assert (G : forall l acc, acc <= 1000 ->
+            fold_left (fun acc kv => if attr_is (fst kv) s_colspan
+                                     then match parse_usize (snd kv) with
+                                          | Some n => N.min n 1000
+                                          | None => 1
+                                          end
+                                     else acc) l acc <= 1000).
+  { induction l as [|kv l IH]; intros acc Ha; cbn [fold_left]; [exact Ha|]. apply IH.
+    destruct (attr_is (fst kv) s_colspan); [|exact Ha]. destruct (parse_usize (snd kv)); lia. }
+  apply G. lia.
+Qed.
+
+Definition out_ok (B : N) (strict : bool) (r : option rnode) : Prop :=
+  match r with None => True | Some x => kid_ok B strict x end.
+
+Lemma fan_bound B : B * (1000 * B + 1) <= usize_max -> B * 1000 <= usize_max.
+Proof.
+  intros H. destruct (N.eq_dec B 0) as [->|Hz]; [lia|].
+  assert (B * 1000 <= B * (1000 * B + 1)) by (apply N.mul_le_mono_l; lia). lia.
+Qed.
+
+Lemma build_element_ok B name attrs computed cs strict :
+  B * (1000 * B + 1) <= usize_max -> N.of_nat (length cs) <= B ->
+  allowed strict (ekind name) = true ->
+  Forall (kid_ok B (kid_strict strict (ekind name))) cs ->
+  okp (out_ok B strict) (build_element name attrs computed cs).
+Proof.
+  intros HB Hlen. unfold build_element, ekind.
+  (* generic closers for the branches whose kind is TOther *)
+  assert (Tmk : forall K : list rnode -> rinfo,
+            (forall l, wfs (RN (K l) computed) = forallb wfs l) ->
+            (forall l, res_ok B (RN (K l) computed)) ->
+            Forall (kid_ok B strict) cs -> okp (out_ok B strict) (Ok (Some (RN (K cs) computed)))).
+  { intros K HK HR Hk. cbn [okp out_ok]. split; [apply HR|]. intros E. rewrite HK.
+    eapply kids_wfs; eassumption. }
+  assert (Tne : forall K : list rnode -> rinfo,
+            (forall l, wfs (RN (K l) computed) = forallb wfs l) ->
+            (forall l, res_ok B (RN (K l) computed)) ->
+            Forall (kid_ok B strict) cs ->
+            okp (out_ok B strict) (match cs with [] => Ok None | _ :: _ => Ok (Some (RN (K cs) computed)) end)).
+  { intros K HK HR Hk. destruct cs as [|c0 cs0] eqn:Ecs; [exact I|]. rewrite <- Ecs in *.
+    apply Tmk; assumption. }
+  Ltac nm := match goal with
+             | |- _ -> _ -> okp _ (if names ?L ?n then _ else _) => destruct (names L n)
+             end; cbv iota.
+  Ltac tmk K Tmk := intros _ Hk; cbn [kid_strict] in Hk;
+                    apply (Tmk K); [intros l; reflexivity|intros l; exact I|exact Hk].
+  nm. { tmk IContainer Tmk. }
+  nm. { intros _ _. exact I. }
+  nm. { tmk IContainer Tne. }
+  nm. { intros _ Hk. cbn [kid_strict] in Hk. destruct (find_attr attrs s_href) as [href|].
+        - destruct (existsb (fun c => negb (is_shallow_empty c)) cs); [|exact I].
+          apply (Tmk (ILink href)); [intros l; reflexivity|intros l; exact I|exact Hk].
+        - apply (Tmk IContainer); [intros l; reflexivity|intros l; exact I|exact Hk]. }
+  nm. { tmk IEm Tmk. }
+  nm. { tmk IStrong Tmk. }
+  nm. { tmk IStrikeout Tmk. }
+  nm. { tmk ICode Tmk. }
+  nm. { intros _ _. exact I. }
+  destruct (heading_level name) as [lvl|]; cbv iota.
+  { tmk (IHeader lvl) Tmk. }
+  nm. { tmk IBlock Tne. }
+  nm. { tmk IListItem Tmk. }
+  nm. { tmk ISup Tmk. }
+  nm. { tmk IDiv Tne. }
+  nm. { intros _ Hk. cbn [kid_strict] in Hk. cbn [okp out_ok]. split; [exact I|].
+        intros E. exact (kids_wfs _ _ _ Hk E). }
+  nm. { intros _ _. exact I. }
+  nm. { (* table *)
+    intros _ Hk. cbn [kid_strict] in Hk.
+    pose proof (bodies_rows B false cs Hk) as Hrows.
+    destruct (flat_map (fun n => match rn_info n with ITableBody b => b | _ => [] end) cs)
+      as [|r0 rows0] eqn:Erows; [exact I|]. rewrite <- Erows in *. clear Erows.
+    destruct (render_table_new_ok wfs B _ HB Hrows) as (rows' & nc & E & F).
+    rewrite E. cbn [bind okp out_ok]. split; [exact I|]. intros _. apply wfs_table_intro, F. }
+  nm. { (* thead / tbody *)
+    intros Ha Hk. cbn [kid_strict allowed] in *. apply negb_true_iff in Ha. subst strict.
+    destruct cs as [|c0 cs0] eqn:Ecs; [exact I|]. rewrite <- Ecs in *. clear Ecs.
+    destruct (tbody_rows_ok wfs B _ (fan_bound B HB) (rows_of B false cs Hk)) as (rows' & E & F).
+    rewrite E. cbn [bind okp out_ok]. split; [exact F|discriminate]. }
+  nm. { (* tr *)
+    intros Ha Hk. cbn [kid_strict allowed] in *. apply negb_true_iff in Ha. subst strict.
+    cbn [okp out_ok]. split; [|discriminate]. cbn [res_ok rn_info]. unfold rowA. cbn [row_cells].
+    destruct (cells_of B false cs Hk) as [C1 C2]. split; [lia|exact C1]. }
+  nm. { (* th / td *)
+    intros Ha Hk. cbn [kid_strict allowed] in *. apply negb_true_iff in Ha. subst strict.
+    cbn [okp out_ok]. split; [|discriminate]. cbn [res_ok rn_info cell_colspan].
+    split; [apply td_colspan_le|]. unfold clean_cell. cbn [cell_content].
+    exact (kids_wfs _ _ _ Hk eq_refl). }
+  nm. { tmk IBlockQuote Tne. }
+  nm. { tmk IUl Tne. }
+  nm. { intros _ Hk. cbn [kid_strict] in Hk. destruct cs as [|c0 cs0] eqn:Ecs; [exact I|].
+        rewrite <- Ecs in *. clear Ecs. cbn [okp out_ok]. split; [exact I|]. intros E.
+        apply forallb_filter. exact (kids_wfs _ _ _ Hk E). }
+  nm. { intros _ Hk. cbn [kid_strict] in Hk. destruct cs as [|c0 cs0] eqn:Ecs; [exact I|].
+        rewrite <- Ecs in *. clear Ecs. cbn [okp out_ok]. split; [exact I|]. intros E.
+        apply forallb_filter. exact (kids_wfs _ _ _ Hk E). }
+  nm. { tmk IDt Tmk. }
+  nm. { tmk IDd Tmk. }
+  tmk IContainer Tne.
+Qed.
+
+(* ---- the side condition on the DOM ---- *)
+Definition fan_max : N := 100000000.
+
+Lemma fan_max_ok : fan_max * (1000 * fan_max + 1) <= usize_max.
+Proof. vm_compute. discriminate. Qed.
+
+(* dom_ok: (1) no element has more than 10^8 children (so that the colspan sums of a table row
+   fit a usize); (2) the table elements are nested the way the HTML parser nests them:
+   <tr> only in <thead>/<tbody>, <td>/<th> only in <tr>, <thead>/<tbody> only in <table>
+   -- or anywhere below a child of <table>/<thead>/<tbody>/<tr> that the table code skips
+   (<caption>, <tfoot>, ...).  strict = the node's result will be rendered. *)
+Fixpoint dok (strict : bool) (n : node) {struct n} : bool :=
+  match n with
+  | NElem html name attrs kids =>
+    (N.of_nat (length kids) <=? fan_max) &&
+    (if negb html then forallb (dok strict) kids
+     else if names [[105;109;103]] name then true
+     else if names [[98;114]] name then true
+     else if names [[108;105;110;107]; [109;101;116;97]; [104;114]; [115;99;114;105;112;116];
+                    [115;116;121;108;101]; [104;101;97;100]] name then true
+     else allowed strict (ekind name) && forallb (dok (kid_strict strict (ekind name))) kids)
+  | _ => true
+  end.
+
+Definition dom_ok (doc : list node) : bool := forallb (dok true) doc.
+
+Section NodeInd.
+  Variable P : node -> Prop.
+  Hypothesis HE : forall html name attrs kids, Forall P kids -> P (NElem html name attrs kids).
+  Hypothesis HT : forall t, P (NText t).
+  Hypothesis HC : P NComment.
+  Hypothesis HO : P NOther.
+  Fixpoint node_ind' (n : node) : P n :=
+    match n with
+    | NElem h nm a kids =>
+      HE h nm a kids
+         ((fix go (l : list node) : Forall P l :=
+             match l with
+             | [] => Forall_nil P
+             | k :: l' => @Forall_cons _ P k l' (node_ind' k) (go l')
+             end) kids)
+    | NText t => HT t
+    | NComment => HC
+    | NOther => HO
+    end.
+End NodeInd.
+
+Lemma pk_gen (proc : node -> Z -> res (option rnode)) B b : forall kids,
+  Forall (fun k => forall i, okp (out_ok B b) (proc k i)) kids ->
+  forall idx0,
+  okp (fun cs => Forall (kid_ok B b) cs /\ (length cs <= length kids)%nat)
+      ((fix pk (kids0 : list node) (idx0 : Z) {struct kids0} : res (list rnode) :=
+          match kids0 with
+          | [] => Ok []
+          | k :: kids' =>
+            do r <- proc k idx0;
+            do rs <- pk kids' (if match k with NElem _ _ _ _ => true | _ => false end
+                               then (idx0 + 1)%Z else idx0);
+            Ok match r with Some x => x :: rs | None => rs end
+          end) kids idx0).
+Proof.
+  induction kids as [|k kids IH]; intros H idx0.
+  - cbn [okp length]. split; [constructor|apply le_n].
+  - inversion H as [|? ? Hk Hkids]; subst.
+    eapply okp_bind; [apply Hk|]. intros r Hr.
+    eapply okp_bind; [apply (IH Hkids)|]. intros rs [A B0]. cbn [okp].
+    destruct r as [x|]; cbn [length]; split; try lia; [constructor; assumption|exact A].
+Qed.
+
+Section ProcessTotal.
+  Variable sd : styledata.
+  Variable udc : bool.
+  Variable inl : list (text * text) -> res (list styledecl).
+  Hypothesis Hinl : forall attrs, okish (inl attrs).
+
+  Lemma process_ok : forall n strict p idx,
+    dok strict n = true -> okp (out_ok fan_max strict) (process sd udc inl n p idx).
+  Proof.
+    apply (node_ind' (fun n => forall strict p idx, dok strict n = true ->
+                                 okp (out_ok fan_max strict) (process sd udc inl n p idx)));
+      try (intros; exact I).
+    2:{ intros t strict p idx _. cbn [process okp out_ok]. split; [exact I|reflexivity]. }
+    intros html name attrs kids IH strict p idx Hd. cbn [dok] in Hd.
+    apply andb_true_iff in Hd. destruct Hd as [Hfan Hd]. apply N.leb_le in Hfan.
+    cbn [process].
+    eapply okp_bind with (P := fun _ => True).
+    { destruct udc; [apply Hinl|exact I]. }
+    intros inls _.
+    set (me := {| a_name := name; a_attrs := attrs; a_idx := idx |} :: p).
+    set (computed := computed_style sd me inls).
+    destruct (ws_val (c_display (cs_core computed))); [exact I|].
+    (* the children, processed in the context b *)
+    assert (Hpk : forall b, forallb (dok b) kids = true ->
+              Forall (fun k => forall i, okp (out_ok fan_max b) (process sd udc inl k me i)) kids).
+    { intros b Hb. apply Forall_forall. intros k Hk. rewrite Forall_forall in IH.
+      rewrite forallb_forall in Hb. intros i. apply (IH k Hk b me i (Hb k Hk)). }
+    eapply okp_bind with (P := out_ok fan_max strict).
+    { destruct (negb html).
+      - eapply okp_bind; [apply (pk_gen (fun k i => process sd udc inl k me i) fan_max strict kids (Hpk strict Hd))|].
+        intros cs [Hcs _]. destruct cs as [|c0 cs0] eqn:Ecs; [exact I|]. rewrite <- Ecs in *.
+        cbn [okp out_ok]. split; [exact I|]. intros E. exact (kids_wfs _ _ _ Hcs E).
+      - destruct (names [[105;109;103]] name).
+        { destruct (img_attrs attrs None None) as [[title|] [src|]]; try exact I.
+          cbn [okp out_ok]. split; [exact I|reflexivity]. }
+        destruct (names [[98;114]] name).
+        { cbn [okp out_ok]. split; [exact I|reflexivity]. }
+        destruct (names [[108;105;110;107]; [109;101;116;97]; [104;114]; [115;99;114;105;112;116];
+                         [115;116;121;108;101]; [104;101;97;100]] name); [exact I|].
+        apply andb_true_iff in Hd. destruct Hd as [Ha Hk].
+        eapply okp_bind;
+          [apply (pk_gen (fun k i => process sd udc inl k me i) fan_max _ kids (Hpk _ Hk))|].
+        intros cs [Hcs Hlen]. apply build_element_ok; [exact fan_max_ok|lia|exact Ha|exact Hcs]. }
+    intros base Hbase.
+    assert (Hw : out_ok fan_max strict
+                   match base with Some nd => Some (wrap_pseudo computed nd) | None => None end).
+    { destruct base as [nd|]; [|exact I]. cbn [out_ok] in *. apply wrap_pseudo_ok, Hbase. }
+    destruct (fragment_of name (html && names [[97]] name) attrs) as [frag|]; [|exact Hw].
+    destruct base as [nd|]; cbn [okp out_ok] in *.
+    - apply insert_child_ok; [reflexivity|exact Hw].
+    - split; [exact I|reflexivity].
+  Qed.
+
+  Lemma process_kids_ok b : forall kids p idx,
+    forallb (dok b) kids = true ->
+    okp (fun cs => Forall (kid_ok fan_max b) cs) (process_kids sd udc inl kids p idx).
+  Proof.
+    induction kids as [|k kids IH]; intros p idx H; cbn [process_kids].
+    - constructor.
+    - cbn [forallb] in H. apply andb_true_iff in H. destruct H as [H1 H2].
+      eapply okp_bind; [apply (process_ok k b p idx H1)|]. intros r Hr.
+      eapply okp_bind; [apply (IH p _ H2)|]. intros rs Hrs. cbn [okp].
+      destruct r as [x|]; [constructor; assumption|exact Hrs].
+  Qed.
+
+  Lemma dom_to_render_tree_ok doc :
+    dom_ok doc = true -> okp (fun t => wfs t = true) (dom_to_render_tree sd udc inl doc).
+  Proof.
+    intros H. unfold dom_to_render_tree.
+    eapply okp_bind; [apply (process_kids_ok true doc [] 1%Z H)|]. intros cs Hcs. cbn [okp].
+    change (forallb wfs cs = true). exact (kids_wfs _ _ _ Hcs eq_refl).
+  Qed.
+End ProcessTotal.
+
+(* ================================================================== *)
+(* 12. From the structural condition and the estimate bound to [wf]     *)
+(* ================================================================== *)
+
+Section Smalls.
+  Variable d : deco.
+  Variable mw : N.
+
+  (* the estimate part of [wf]: every block that opens a prefixed sub-renderer has an
+     estimated minimum width below usize::MAX *)
+  Fixpoint smalls (n : rnode) {struct n} : bool :=
+    match rn_info n with
+    | IText _ | IImg _ _ | IBreak | IFragStart _ => true
+    | IContainer cs | ILink _ cs | IEm cs | IStrong cs | IStrikeout cs | ICode cs | IBlock cs
+    | IListItem cs | IDiv cs | IDl cs | IDt cs | ISup cs => forallb smalls cs
+    | IHeader _ cs | IBlockQuote cs | IUl cs | IOl _ cs | IDd cs =>
+      small d mw n && forallb smalls cs
+    | ITable rows _ =>
+      forallb (fun r => match r with
+                        | RRow cells _ =>
+                          forallb (fun c => match c with
+                                            | RCell _ content _ => forallb smalls content
+                                            end) cells
+                        end) rows
+    | ITableBody _ | ITableRow _ | ITableCell _ => true
+    end.
+
+  Definition both (n : rnode) : Prop := wfs n = true -> smalls n = true -> wf d mw n = true.
+
+  Lemma forallb_both cs :
+    Forall both cs -> forallb wfs cs = true -> forallb smalls cs = true ->
+    forallb (wf d mw) cs = true.
+  Proof.
+    intros HF H1 H2. apply forallb_forall. intros c Hc. rewrite Forall_forall in HF.
+    rewrite forallb_forall in H1, H2. apply (HF c Hc); auto.
+  Qed.
+
+  Lemma wf_of_wfs : forall n, both n.
+  Proof.
+    apply rnode_ind'. intros i sty IH H1 H2.
+    destruct i; cbn [direct_kids] in IH; cbn [wfs rn_info] in H1; cbn [smalls rn_info] in H2;
+      cbn [wf rn_info]; try discriminate; try reflexivity;
+      try (apply forallb_both; assumption);
+      try (apply andb_true_iff in H2; destruct H2 as [H2a H2b]; rewrite H2a; cbn [andb];
+           apply forallb_both; assumption).
+    (* ITable *)
+    apply forallb_forall. intros r Hr. rewrite forallb_forall in H1, H2.
+    specialize (H1 r Hr). specialize (H2 r Hr).
+    apply Forall_flat_map in IH. rewrite Forall_forall in IH. specialize (IH r Hr).
+    destruct r as [cells rsty]. unfold row_kids in IH. cbn [row_cells] in IH.
+    apply Forall_flat_map in IH.
+    apply andb_true_iff in H1. destruct H1 as [H1a H1b]. rewrite H1a. cbn [andb].
+    apply forallb_forall. intros c Hc. rewrite forallb_forall in H1b, H2.
+    specialize (H1b c Hc). specialize (H2 c Hc). rewrite Forall_forall in IH. specialize (IH c Hc).
+    destruct c as [k content csty]. cbn [cell_content] in IH.
+    apply andb_true_iff in H1b. destruct H1b as [A B]. rewrite A. cbn [andb].
+    apply forallb_both; assumption.
+  Qed.
+End Smalls.
+
+(* ================================================================== *)
+(* 13. The public routes (Api.v), from the document                     *)
+(* ================================================================== *)
+
+Section Routes.
+  (* the CSS front end, as in Api.v / RenderWidth.v; its totality is proved in CssTotal.v
+     (c17_inline_total, c17_doc_rules_total) and assumed here in the form needed *)
+  Variable inline_styles : list (text * text) -> res (list styledecl).
+  Variable doc_rules : list node -> res (list ruleset).
+  Hypothesis Hinl : forall attrs, okish (inline_styles attrs).
+  Hypothesis Hrules : forall doc, okish (doc_rules doc).
+
+  (* The DOM layer never panics on a DOM that is nested like parser output, and the tree it
+     builds is structurally well-formed. *)
+  Theorem c01_to_render_tree_total : forall (c : config) (doc : list node),
+    dom_ok doc = true ->
+    okp (fun tree => wfs tree = true) (to_render_tree inline_styles doc_rules c doc).
+  Proof.
+    intros c doc Hd. unfold to_render_tree.
+    eapply okp_bind with (P := fun _ => True).
+    { unfold effective_sd. destruct (c_use_doc_css c); [|exact I].
+      eapply okp_bind; [apply Hrules|]. intros; exact I. }
+    intros sd _. apply dom_to_render_tree_ok; assumption.
+  Qed.
+
+  (* the estimate bound, computed on the tree the DOM layer builds (decidable: everything
+     here is a computable function of the configuration and the document) *)
+  Definition est_side (c : config) (doc : list node) : bool :=
+    match to_render_tree inline_styles doc_rules c doc with
+    | Ok tree => smalls (c_deco c) (c_min_wrap c) tree
+    | _ => true
+    end.
+
+  Theorem c01_routes_total : forall (c : config) (doc : list node) (w : N),
+    w < usize_max ->
+    dom_ok doc = true ->
+    est_side c doc = true ->
+    okish (lines_from_read inline_styles doc_rules c doc w) /\
+    okish (string_from_read inline_styles doc_rules c doc w).
+  Proof.
+    intros c doc w Hw Hd He.
+    pose proof (c01_to_render_tree_total c doc Hd) as Ht. unfold est_side in He.
+    destruct (to_render_tree inline_styles doc_rules c doc) as [tree| | |] eqn:E;
+      cbn [okp] in Ht; try contradiction.
+    - apply (c01_routes_given_tree inline_styles doc_rules c doc w tree Hw E).
+      apply wf_of_wfs; assumption.
+    - unfold lines_from_read, string_from_read. rewrite E. split; exact I.
+  Qed.
+End Routes.
+Print Assumptions c01_to_render_tree_total.
+Print Assumptions c01_routes_total.
+
+(* ================================================================== *)
+(* 14. The routes with the model's CSS front end; examples              *)
+(* ================================================================== *)
+From H2T Require CssParse Proofs.CssTotal.
+
+Lemma css_inline_okish : forall attrs, okish (CssParse.inline_styles attrs).
+Proof. intros attrs. destruct (CssTotal.c17_inline_total attrs) as [l ->]. exact I. Qed.
+Lemma css_rules_okish : forall doc, okish (CssParse.doc_rules doc).
+Proof. intros doc. destruct (CssTotal.c17_doc_rules_total doc) as [l ->]. exact I. Qed.
+
+(* C01 for the public routes of the model: every configuration, every document nested like
+   parser output, every width below usize::MAX (0 included: TooNarrow). *)
+Theorem c01_routes_total_css : forall (c : config) (doc : list node) (w : N),
+  w < usize_max ->
+  dom_ok doc = true ->
+  est_side CssParse.inline_styles CssParse.doc_rules c doc = true ->
+  okish (lines_from_read CssParse.inline_styles CssParse.doc_rules c doc w) /\
+  okish (string_from_read CssParse.inline_styles CssParse.doc_rules c doc w).
+Proof.
+  intros c doc w. apply c01_routes_total; [exact css_inline_okish|exact css_rules_okish].
+Qed.
+Print Assumptions c01_routes_total_css.
+
+Theorem c01_to_render_tree_total_css : forall (c : config) (doc : list node),
+  dom_ok doc = true ->
+  okp (fun tree => wfs tree = true)
+      (to_render_tree CssParse.inline_styles CssParse.doc_rules c doc).
+Proof.
+  intros c doc. apply c01_to_render_tree_total; [exact css_inline_okish|exact css_rules_okish].
+Qed.
+Print Assumptions c01_to_render_tree_total_css.
+
+(* ---- a document: <html><body><p>hi there</p>
+        <table><tbody><tr><td colspan=2>ab</td><td>c</td></tr><tr><td>d</td><td>e</td><td>f</td></tr>
+        </tbody><tfoot><tr><td>g</td></tr></tfoot></table><ol start=9><li>x</li><li>y</li></ol></body></html> *)
+Definition el (name : list N) (attrs : list (text * text)) (kids : list node) : node :=
+  NElem true (of_ascii name) attrs kids.
+Definition tx (l : list N) : node := NText (ex_str l).
+Definition td_ (l : list N) : node := el [116;100] [] [tx l].
+Definition ex_doc : list node :=
+  [el [104;116;109;108] []
+    [el [98;111;100;121] []
+      [el [112] [] [tx [104;105;32;116;104;101;114;101]];
+       el [116;97;98;108;101] []
+         [el [116;98;111;100;121] []
+            [el [116;114] [] [el [116;100] [(of_ascii s_colspan, of_ascii [50])] [tx [97;98]]; td_ [99]];
+             el [116;114] [] [td_ [100]; td_ [101]; td_ [102]]];
+          el [116;102;111;111;116] [] [el [116;114] [] [td_ [103]]]];
+       el [111;108] [(of_ascii s_start, of_ascii [57])]
+         [el [108;105] [] [tx [120]]; el [108;105] [] [tx [121]]]]]].
+
+Example ex_doc_ok : dom_ok ex_doc = true.
+Proof. vm_compute. reflexivity. Qed.
+Example ex_doc_est :
+  est_side CssParse.inline_styles CssParse.doc_rules cfg_plain ex_doc = true.
+Proof. vm_compute. reflexivity. Qed.
+Example ex_doc_total_applies :
+  okish (lines_from_read CssParse.inline_styles CssParse.doc_rules cfg_plain ex_doc 20) /\
+  okish (string_from_read CssParse.inline_styles CssParse.doc_rules cfg_plain ex_doc 20).
+Proof.
+  apply c01_routes_total_css; [vm_compute; reflexivity|exact ex_doc_ok|exact ex_doc_est].
+Qed.
+(* the outcomes that occur: Ok at width 20, TooNarrow at widths 2 and 0 *)
+Example ex_doc_20 :
+  match string_from_read CssParse.inline_styles CssParse.doc_rules cfg_plain ex_doc 20 with
+  | Ok t => (0 <? tlen t) = true | _ => False end.
+Proof. vm_compute. reflexivity. Qed.
+Example ex_doc_2 :
+  string_from_read CssParse.inline_styles CssParse.doc_rules cfg_plain ex_doc 2 = TooNarrow.
+Proof. vm_compute. reflexivity. Qed.
+Example ex_doc_0 :
+  string_from_read CssParse.inline_styles CssParse.doc_rules cfg_plain ex_doc 0 = TooNarrow.
+Proof. vm_compute. reflexivity. Qed.
+
+(* the nesting condition is needed: a table cell outside a row is `unreachable!` in
+   do_render_node (the HTML parser never builds such a DOM) *)
+Definition cex_doc : list node := [el [100;105;118] [] [td_ [120]]].
+Example cex_doc_not_ok : dom_ok cex_doc = false.
+Proof. vm_compute. reflexivity. Qed.
+Example cex_doc_panics :
+  string_from_read CssParse.inline_styles CssParse.doc_rules cfg_plain cex_doc 20 = Panic 60.
+Proof. vm_compute. reflexivity. Qed.
+
+(* condition (c) of tree_wf is needed in the model (whose characters may have any width):
+   with allow_width_overflow a block quote around a table whose only character is 2^64
+   columns wide gets a sub-renderer of width 2^64, and `col_width + colspan` overflows *)
+Definition big : N := 18446744073709551616.
+Definition cex_bigchr : chr := mkchr 120 (Some big) false 16.
+Definition cex_big_tree : rnode :=
+  ex_n (IBlockQuote [ex_n (ITable [RRow [RCell 1 [ex_n (IText [cex_bigchr])] cstyle0] cstyle0] 1)]).
+Definition cex_opts : ropts := mkopts None true false false false true false true.
+Example cex_big_not_wf : tree_wf plain_deco big cex_big_tree = false.
+Proof. lazy. reflexivity. Qed.
+Example cex_big_panics : render_tree plain_deco big cex_opts 10 cex_big_tree = Panic 30.
+Proof. lazy. reflexivity. Qed.
+
+(* non-vacuity of c01_to_render_tree_total: the DOM layer builds a structurally well-formed
+   tree for ex_doc (table with colspan, a dropped tfoot, ordered list) *)
+Example ex_doc_tree_wfs :
+  match to_render_tree CssParse.inline_styles CssParse.doc_rules cfg_plain ex_doc with
+  | Ok tree => wfs tree = true /\ tree_wf plain_deco 3 tree = true
+  | _ => False
+  end.
+Proof. vm_compute. split; reflexivity. Qed.
